@@ -1,0 +1,4144 @@
+	.file	"test_jcode.c"
+	.text
+.Ltext0:
+	.file 0 "/repo/aldor/aldor/src" "test/test_jcode.c"
+	.section	.rodata
+.LC0:
+	.string	"testTry"
+	.text
+	.globl	jcodeTest
+	.type	jcodeTest, @function
+jcodeTest:
+.LFB0:
+	.file 1 "test/test_jcode.c"
+	.loc 1 16 1
+	.cfi_startproc
+	pushq	%rbp
+	.cfi_def_cfa_offset 16
+	.cfi_offset 6, -16
+	movq	%rsp, %rbp
+	.cfi_def_cfa_register 6
+	.loc 1 17 2
+	call	osInit@PLT
+	.loc 1 18 2
+	call	dbInit@PLT
+	.loc 1 19 2
+	movl	$0, %eax
+	call	fmttsInit@PLT
+	.loc 1 20 2
+	call	sxiInit@PLT
+	.loc 1 21 2
+	leaq	testTry(%rip), %rax
+	movq	%rax, %rsi
+	leaq	.LC0(%rip), %rax
+	movq	%rax, %rdi
+	call	showTest@PLT
+	.loc 1 22 2
+	call	dbFini@PLT
+	.loc 1 23 1
+	nop
+	popq	%rbp
+	.cfi_def_cfa 7, 8
+	ret
+	.cfi_endproc
+.LFE0:
+	.size	jcodeTest, .-jcodeTest
+	.section	.rodata
+.LC1:
+	.string	"e"
+.LC2:
+	.string	"Exn"
+.LC3:
+	.string	"foo"
+.LC4:
+	.string	"obj"
+.LC5:
+	.string	"r"
+.LC6:
+	.string	"%pJavaCode\n"
+.LC7:
+	.string	"%s\n"
+	.align 8
+.LC8:
+	.string	"try {\n    r = obj.foo();\n}\ncatch (Exn e) {\n    return;\n}"
+.LC9:
+	.string	""
+	.text
+	.type	testTry, @function
+testTry:
+.LFB1:
+	.loc 1 27 1
+	.cfi_startproc
+	pushq	%rbp
+	.cfi_def_cfa_offset 16
+	.cfi_offset 6, -16
+	movq	%rsp, %rbp
+	.cfi_def_cfa_register 6
+	pushq	%r13
+	pushq	%r12
+	pushq	%rbx
+	subq	$40, %rsp
+	.cfi_offset 13, -24
+	.cfi_offset 12, -32
+	.cfi_offset 3, -40
+	.loc 1 29 15
+	call	bufNew@PLT
+	movq	%rax, -40(%rbp)
+	.loc 1 31 26
+	movq	-40(%rbp), %rax
+	movq	%rax, %rdi
+	call	ostreamNewFrBuffer@PLT
+	movl	$1, %esi
+	movq	%rax, %rdi
+	call	jcoPContextNew@PLT
+	movq	%rax, -48(%rbp)
+	.loc 1 34 29
+	movq	JavaCode_listPointer(%rip), %rax
+	movq	8(%rax), %rbx
+	.loc 1 32 9
+	movl	$0, %eax
+	call	jcReturnVoid@PLT
+	movq	%rax, %rdi
+	call	jcStatement@PLT
+	movq	%rax, %rdi
+	call	jcBlock@PLT
+	movq	%rax, %r12
+	leaq	.LC1(%rip), %rax
+	movq	%rax, %rdi
+	call	strCopy@PLT
+	movq	%rax, %rdi
+	call	jcId@PLT
+	movq	%rax, %r13
+	leaq	.LC2(%rip), %rax
+	movq	%rax, %rdi
+	call	strCopy@PLT
+	movq	%rax, %rdi
+	call	jcId@PLT
+	movq	%r13, %rdx
+	movq	%rax, %rsi
+	movl	$0, %edi
+	call	jcLocalDecl@PLT
+	movq	%r12, %rsi
+	movq	%rax, %rdi
+	call	jcCatch@PLT
+	movq	%rax, %rdi
+	call	*%rbx
+.LVL0:
+	movq	%rax, %rbx
+	leaq	.LC3(%rip), %rax
+	movq	%rax, %rdi
+	call	strCopy@PLT
+	movq	%rax, %rdi
+	call	jcId@PLT
+	movq	%rax, %r12
+	leaq	.LC4(%rip), %rax
+	movq	%rax, %rdi
+	call	strCopy@PLT
+	movq	%rax, %rdi
+	call	jcId@PLT
+	movl	$0, %edx
+	movq	%r12, %rsi
+	movq	%rax, %rdi
+	movl	$0, %eax
+	call	jcApplyMethodV@PLT
+	movq	%rax, %r12
+	leaq	.LC5(%rip), %rax
+	movq	%rax, %rdi
+	call	strCopy@PLT
+	movq	%rax, %rdi
+	call	jcId@PLT
+	movq	%r12, %rsi
+	movq	%rax, %rdi
+	call	jcAssign@PLT
+	movq	%rax, %rdi
+	call	jcStatement@PLT
+	movq	%rax, %rdi
+	call	jcBlock@PLT
+	movl	$0, %edx
+	movq	%rbx, %rsi
+	movq	%rax, %rdi
+	call	jcTry@PLT
+	movq	%rax, -56(%rbp)
+	.loc 1 38 2
+	movq	dbOut(%rip), %rax
+	movq	-56(%rbp), %rdx
+	leaq	.LC6(%rip), %rcx
+	movq	%rcx, %rsi
+	movq	%rax, %rdi
+	movl	$0, %eax
+	call	afprintf@PLT
+	.loc 1 39 2
+	movq	-56(%rbp), %rdx
+	movq	-48(%rbp), %rax
+	movq	%rdx, %rsi
+	movq	%rax, %rdi
+	call	jcoWrite@PLT
+	.loc 1 40 8
+	movq	-40(%rbp), %rax
+	movq	%rax, %rdi
+	call	bufLiberate@PLT
+	movq	%rax, -64(%rbp)
+	.loc 1 41 2
+	movq	dbOut(%rip), %rax
+	movq	-64(%rbp), %rdx
+	leaq	.LC7(%rip), %rcx
+	movq	%rcx, %rsi
+	movq	%rax, %rdi
+	movl	$0, %eax
+	call	afprintf@PLT
+	.loc 1 43 2
+	movq	-64(%rbp), %rax
+	movq	%rax, %rdx
+	leaq	.LC8(%rip), %rax
+	movq	%rax, %rsi
+	leaq	.LC9(%rip), %rax
+	movq	%rax, %rdi
+	call	testStringEqual@PLT
+	.loc 1 44 1
+	nop
+	addq	$40, %rsp
+	popq	%rbx
+	popq	%r12
+	popq	%r13
+	popq	%rbp
+	.cfi_def_cfa 7, 8
+	ret
+	.cfi_endproc
+.LFE1:
+	.size	testTry, .-testTry
+.Letext0:
+	.file 2 "/usr/include/x86_64-linux-gnu/bits/types.h"
+	.file 3 "<built-in>"
+	.file 4 "/usr/lib/gcc/x86_64-linux-gnu/12/include/stddef.h"
+	.file 5 "/usr/include/x86_64-linux-gnu/bits/types/struct_FILE.h"
+	.file 6 "/usr/include/x86_64-linux-gnu/bits/types/FILE.h"
+	.file 7 "./cport.h"
+	.file 8 "./buffer.h"
+	.file 9 "./ostream.h"
+	.file 10 "./axlgen.h"
+	.file 11 "./sexpr.h"
+	.file 12 "./table.h"
+	.file 13 "./bigint.h"
+	.file 14 "./axlobs.h"
+	.file 15 "./symbol.h"
+	.file 16 "./strops.h"
+	.file 17 "./java/javaobj.h"
+	.file 18 "./debug.h"
+	.file 19 "test/testlib.h"
+	.file 20 "./format.h"
+	.file 21 "./java/javacode.h"
+	.file 22 "./opsys.h"
+	.file 23 "./formatters.h"
+	.section	.debug_info,"",@progbits
+.Ldebug_info0:
+	.long	0x152a
+	.value	0x5
+	.byte	0x1
+	.byte	0x8
+	.long	.Ldebug_abbrev0
+	.uleb128 0x21
+	.long	.LASF246
+	.byte	0xc
+	.long	.LASF0
+	.long	.LASF1
+	.quad	.Ltext0
+	.quad	.Letext0-.Ltext0
+	.long	.Ldebug_line0
+	.uleb128 0x22
+	.byte	0x4
+	.byte	0x5
+	.string	"int"
+	.uleb128 0xd
+	.byte	0x1
+	.byte	0x8
+	.long	.LASF2
+	.uleb128 0xd
+	.byte	0x2
+	.byte	0x7
+	.long	.LASF3
+	.uleb128 0xd
+	.byte	0x4
+	.byte	0x7
+	.long	.LASF4
+	.uleb128 0xd
+	.byte	0x8
+	.byte	0x7
+	.long	.LASF5
+	.uleb128 0xd
+	.byte	0x1
+	.byte	0x6
+	.long	.LASF6
+	.uleb128 0xd
+	.byte	0x2
+	.byte	0x5
+	.long	.LASF7
+	.uleb128 0xd
+	.byte	0x8
+	.byte	0x5
+	.long	.LASF8
+	.uleb128 0x7
+	.long	.LASF9
+	.byte	0x2
+	.byte	0x98
+	.byte	0x12
+	.long	0x5f
+	.uleb128 0x7
+	.long	.LASF10
+	.byte	0x2
+	.byte	0x99
+	.byte	0x12
+	.long	0x5f
+	.uleb128 0x23
+	.byte	0x8
+	.uleb128 0x2
+	.long	0x85
+	.uleb128 0xd
+	.byte	0x1
+	.byte	0x6
+	.long	.LASF11
+	.uleb128 0x1a
+	.long	0x85
+	.uleb128 0xd
+	.byte	0x4
+	.byte	0x4
+	.long	.LASF12
+	.uleb128 0xd
+	.byte	0x8
+	.byte	0x4
+	.long	.LASF13
+	.uleb128 0x24
+	.long	.LASF247
+	.byte	0x18
+	.byte	0x3
+	.byte	0
+	.long	0xd4
+	.uleb128 0x16
+	.long	.LASF14
+	.long	0x43
+	.byte	0
+	.uleb128 0x16
+	.long	.LASF15
+	.long	0x43
+	.byte	0x4
+	.uleb128 0x16
+	.long	.LASF16
+	.long	0x7e
+	.byte	0x8
+	.uleb128 0x16
+	.long	.LASF17
+	.long	0x7e
+	.byte	0x10
+	.byte	0
+	.uleb128 0x7
+	.long	.LASF18
+	.byte	0x4
+	.byte	0xd6
+	.byte	0x1b
+	.long	0x4a
+	.uleb128 0xa
+	.long	.LASF70
+	.byte	0xd8
+	.byte	0x5
+	.byte	0x31
+	.byte	0x8
+	.long	0x267
+	.uleb128 0x3
+	.long	.LASF19
+	.byte	0x5
+	.byte	0x33
+	.byte	0x7
+	.long	0x2e
+	.byte	0
+	.uleb128 0x3
+	.long	.LASF20
+	.byte	0x5
+	.byte	0x36
+	.byte	0x9
+	.long	0x80
+	.byte	0x8
+	.uleb128 0x3
+	.long	.LASF21
+	.byte	0x5
+	.byte	0x37
+	.byte	0x9
+	.long	0x80
+	.byte	0x10
+	.uleb128 0x3
+	.long	.LASF22
+	.byte	0x5
+	.byte	0x38
+	.byte	0x9
+	.long	0x80
+	.byte	0x18
+	.uleb128 0x3
+	.long	.LASF23
+	.byte	0x5
+	.byte	0x39
+	.byte	0x9
+	.long	0x80
+	.byte	0x20
+	.uleb128 0x3
+	.long	.LASF24
+	.byte	0x5
+	.byte	0x3a
+	.byte	0x9
+	.long	0x80
+	.byte	0x28
+	.uleb128 0x3
+	.long	.LASF25
+	.byte	0x5
+	.byte	0x3b
+	.byte	0x9
+	.long	0x80
+	.byte	0x30
+	.uleb128 0x3
+	.long	.LASF26
+	.byte	0x5
+	.byte	0x3c
+	.byte	0x9
+	.long	0x80
+	.byte	0x38
+	.uleb128 0x3
+	.long	.LASF27
+	.byte	0x5
+	.byte	0x3d
+	.byte	0x9
+	.long	0x80
+	.byte	0x40
+	.uleb128 0x3
+	.long	.LASF28
+	.byte	0x5
+	.byte	0x40
+	.byte	0x9
+	.long	0x80
+	.byte	0x48
+	.uleb128 0x3
+	.long	.LASF29
+	.byte	0x5
+	.byte	0x41
+	.byte	0x9
+	.long	0x80
+	.byte	0x50
+	.uleb128 0x3
+	.long	.LASF30
+	.byte	0x5
+	.byte	0x42
+	.byte	0x9
+	.long	0x80
+	.byte	0x58
+	.uleb128 0x3
+	.long	.LASF31
+	.byte	0x5
+	.byte	0x44
+	.byte	0x16
+	.long	0x280
+	.byte	0x60
+	.uleb128 0x3
+	.long	.LASF32
+	.byte	0x5
+	.byte	0x46
+	.byte	0x14
+	.long	0x285
+	.byte	0x68
+	.uleb128 0x3
+	.long	.LASF33
+	.byte	0x5
+	.byte	0x48
+	.byte	0x7
+	.long	0x2e
+	.byte	0x70
+	.uleb128 0x3
+	.long	.LASF34
+	.byte	0x5
+	.byte	0x49
+	.byte	0x7
+	.long	0x2e
+	.byte	0x74
+	.uleb128 0x3
+	.long	.LASF35
+	.byte	0x5
+	.byte	0x4a
+	.byte	0xb
+	.long	0x66
+	.byte	0x78
+	.uleb128 0x3
+	.long	.LASF36
+	.byte	0x5
+	.byte	0x4d
+	.byte	0x12
+	.long	0x3c
+	.byte	0x80
+	.uleb128 0x3
+	.long	.LASF37
+	.byte	0x5
+	.byte	0x4e
+	.byte	0xf
+	.long	0x51
+	.byte	0x82
+	.uleb128 0x3
+	.long	.LASF38
+	.byte	0x5
+	.byte	0x4f
+	.byte	0x8
+	.long	0x28a
+	.byte	0x83
+	.uleb128 0x3
+	.long	.LASF39
+	.byte	0x5
+	.byte	0x51
+	.byte	0xf
+	.long	0x29a
+	.byte	0x88
+	.uleb128 0x3
+	.long	.LASF40
+	.byte	0x5
+	.byte	0x59
+	.byte	0xd
+	.long	0x72
+	.byte	0x90
+	.uleb128 0x3
+	.long	.LASF41
+	.byte	0x5
+	.byte	0x5b
+	.byte	0x17
+	.long	0x2a4
+	.byte	0x98
+	.uleb128 0x3
+	.long	.LASF42
+	.byte	0x5
+	.byte	0x5c
+	.byte	0x19
+	.long	0x2ae
+	.byte	0xa0
+	.uleb128 0x3
+	.long	.LASF43
+	.byte	0x5
+	.byte	0x5d
+	.byte	0x14
+	.long	0x285
+	.byte	0xa8
+	.uleb128 0x3
+	.long	.LASF44
+	.byte	0x5
+	.byte	0x5e
+	.byte	0x9
+	.long	0x7e
+	.byte	0xb0
+	.uleb128 0x3
+	.long	.LASF45
+	.byte	0x5
+	.byte	0x5f
+	.byte	0xa
+	.long	0xd4
+	.byte	0xb8
+	.uleb128 0x3
+	.long	.LASF46
+	.byte	0x5
+	.byte	0x60
+	.byte	0x7
+	.long	0x2e
+	.byte	0xc0
+	.uleb128 0x3
+	.long	.LASF47
+	.byte	0x5
+	.byte	0x62
+	.byte	0x8
+	.long	0x2b3
+	.byte	0xc4
+	.byte	0
+	.uleb128 0x7
+	.long	.LASF48
+	.byte	0x6
+	.byte	0x7
+	.byte	0x19
+	.long	0xe0
+	.uleb128 0x25
+	.long	.LASF248
+	.byte	0x5
+	.byte	0x2b
+	.byte	0xe
+	.uleb128 0x17
+	.long	.LASF49
+	.uleb128 0x2
+	.long	0x27b
+	.uleb128 0x2
+	.long	0xe0
+	.uleb128 0x14
+	.long	0x85
+	.long	0x29a
+	.uleb128 0x15
+	.long	0x4a
+	.byte	0
+	.byte	0
+	.uleb128 0x2
+	.long	0x273
+	.uleb128 0x17
+	.long	.LASF50
+	.uleb128 0x2
+	.long	0x29f
+	.uleb128 0x17
+	.long	.LASF51
+	.uleb128 0x2
+	.long	0x2a9
+	.uleb128 0x14
+	.long	0x85
+	.long	0x2c3
+	.uleb128 0x15
+	.long	0x4a
+	.byte	0x13
+	.byte	0
+	.uleb128 0x2
+	.long	0x267
+	.uleb128 0xd
+	.byte	0x8
+	.byte	0x5
+	.long	.LASF52
+	.uleb128 0x2
+	.long	0x8c
+	.uleb128 0x8
+	.long	.LASF53
+	.byte	0x7
+	.value	0x138
+	.byte	0x17
+	.long	0x35
+	.uleb128 0x8
+	.long	.LASF54
+	.byte	0x7
+	.value	0x139
+	.byte	0x18
+	.long	0x3c
+	.uleb128 0x8
+	.long	.LASF55
+	.byte	0x7
+	.value	0x13a
+	.byte	0x17
+	.long	0x4a
+	.uleb128 0x8
+	.long	.LASF56
+	.byte	0x7
+	.value	0x142
+	.byte	0x19
+	.long	0x4a
+	.uleb128 0x8
+	.long	.LASF57
+	.byte	0x7
+	.value	0x14e
+	.byte	0x16
+	.long	0x43
+	.uleb128 0x8
+	.long	.LASF58
+	.byte	0x7
+	.value	0x156
+	.byte	0xd
+	.long	0x2e
+	.uleb128 0x8
+	.long	.LASF59
+	.byte	0x7
+	.value	0x157
+	.byte	0xf
+	.long	0x2fb
+	.uleb128 0x8
+	.long	.LASF60
+	.byte	0x7
+	.value	0x158
+	.byte	0x10
+	.long	0xd4
+	.uleb128 0x8
+	.long	.LASF61
+	.byte	0x7
+	.value	0x166
+	.byte	0x12
+	.long	0x7e
+	.uleb128 0x8
+	.long	.LASF62
+	.byte	0x7
+	.value	0x16a
+	.byte	0xf
+	.long	0x80
+	.uleb128 0x8
+	.long	.LASF63
+	.byte	0x7
+	.value	0x16b
+	.byte	0x15
+	.long	0x2cf
+	.uleb128 0x8
+	.long	.LASF64
+	.byte	0x7
+	.value	0x178
+	.byte	0x10
+	.long	0x98
+	.uleb128 0x8
+	.long	.LASF65
+	.byte	0x7
+	.value	0x17a
+	.byte	0x10
+	.long	0x98
+	.uleb128 0x7
+	.long	.LASF66
+	.byte	0x8
+	.byte	0x10
+	.byte	0x18
+	.long	0x389
+	.uleb128 0x2
+	.long	0x38e
+	.uleb128 0x17
+	.long	.LASF67
+	.uleb128 0x7
+	.long	.LASF68
+	.byte	0x9
+	.byte	0x7
+	.byte	0xf
+	.long	0x39f
+	.uleb128 0x2
+	.long	0x3a4
+	.uleb128 0x4
+	.long	0x2e
+	.long	0x3b8
+	.uleb128 0x1
+	.long	0x356
+	.uleb128 0x1
+	.long	0x2e
+	.byte	0
+	.uleb128 0x7
+	.long	.LASF69
+	.byte	0x9
+	.byte	0x9
+	.byte	0x19
+	.long	0x3c4
+	.uleb128 0x2
+	.long	0x3c9
+	.uleb128 0xa
+	.long	.LASF71
+	.byte	0x10
+	.byte	0x9
+	.byte	0x15
+	.byte	0x8
+	.long	0x3f1
+	.uleb128 0x6
+	.string	"ops"
+	.byte	0x9
+	.byte	0x16
+	.byte	0xd
+	.long	0x48d
+	.byte	0
+	.uleb128 0x3
+	.long	.LASF72
+	.byte	0x9
+	.byte	0x1a
+	.byte	0x4
+	.long	0x49e
+	.byte	0x8
+	.byte	0
+	.uleb128 0x7
+	.long	.LASF73
+	.byte	0x9
+	.byte	0xb
+	.byte	0xe
+	.long	0x3fd
+	.uleb128 0x12
+	.long	0x40d
+	.uleb128 0x1
+	.long	0x3b8
+	.uleb128 0x1
+	.long	0x85
+	.byte	0
+	.uleb128 0x7
+	.long	.LASF74
+	.byte	0x9
+	.byte	0xc
+	.byte	0xd
+	.long	0x419
+	.uleb128 0x4
+	.long	0x2e
+	.long	0x432
+	.uleb128 0x1
+	.long	0x3b8
+	.uleb128 0x1
+	.long	0x2cf
+	.uleb128 0x1
+	.long	0x2e
+	.byte	0
+	.uleb128 0x7
+	.long	.LASF75
+	.byte	0x9
+	.byte	0xd
+	.byte	0xe
+	.long	0x43e
+	.uleb128 0x12
+	.long	0x449
+	.uleb128 0x1
+	.long	0x3b8
+	.byte	0
+	.uleb128 0xa
+	.long	.LASF76
+	.byte	0x18
+	.byte	0x9
+	.byte	0xf
+	.byte	0x10
+	.long	0x47e
+	.uleb128 0x3
+	.long	.LASF77
+	.byte	0x9
+	.byte	0x10
+	.byte	0x12
+	.long	0x47e
+	.byte	0
+	.uleb128 0x3
+	.long	.LASF78
+	.byte	0x9
+	.byte	0x11
+	.byte	0x14
+	.long	0x483
+	.byte	0x8
+	.uleb128 0x3
+	.long	.LASF79
+	.byte	0x9
+	.byte	0x12
+	.byte	0xe
+	.long	0x488
+	.byte	0x10
+	.byte	0
+	.uleb128 0x2
+	.long	0x3f1
+	.uleb128 0x2
+	.long	0x40d
+	.uleb128 0x2
+	.long	0x432
+	.uleb128 0x7
+	.long	.LASF80
+	.byte	0x9
+	.byte	0x13
+	.byte	0x4
+	.long	0x499
+	.uleb128 0x2
+	.long	0x449
+	.uleb128 0x26
+	.byte	0x8
+	.byte	0x9
+	.byte	0x17
+	.byte	0x2
+	.long	0x4be
+	.uleb128 0x1b
+	.string	"obj"
+	.byte	0x18
+	.byte	0xb
+	.long	0x33c
+	.uleb128 0x1b
+	.string	"fun"
+	.byte	0x19
+	.byte	0x11
+	.long	0x393
+	.byte	0
+	.uleb128 0x2
+	.long	0x9f
+	.uleb128 0x2
+	.long	0x2e
+	.uleb128 0x7
+	.long	.LASF81
+	.byte	0xa
+	.byte	0x29
+	.byte	0xf
+	.long	0x2ee
+	.uleb128 0x7
+	.long	.LASF82
+	.byte	0xa
+	.byte	0x2c
+	.byte	0x1c
+	.long	0x4e0
+	.uleb128 0x2
+	.long	0x4e5
+	.uleb128 0x27
+	.long	.LASF131
+	.byte	0x68
+	.byte	0xb
+	.byte	0x7b
+	.byte	0x7
+	.long	0x577
+	.uleb128 0xb
+	.long	.LASF83
+	.byte	0x7c
+	.byte	0xf
+	.long	0x1051
+	.uleb128 0xb
+	.long	.LASF84
+	.byte	0x7d
+	.byte	0xf
+	.long	0x1093
+	.uleb128 0xb
+	.long	.LASF85
+	.byte	0x7e
+	.byte	0x12
+	.long	0x10c8
+	.uleb128 0xb
+	.long	.LASF86
+	.byte	0x7f
+	.byte	0x13
+	.long	0x110a
+	.uleb128 0xb
+	.long	.LASF87
+	.byte	0x80
+	.byte	0x13
+	.long	0x113f
+	.uleb128 0xb
+	.long	.LASF88
+	.byte	0x81
+	.byte	0x11
+	.long	0x1167
+	.uleb128 0xb
+	.long	.LASF89
+	.byte	0x82
+	.byte	0x11
+	.long	0x119c
+	.uleb128 0xb
+	.long	.LASF90
+	.byte	0x83
+	.byte	0x13
+	.long	0x11d1
+	.uleb128 0xb
+	.long	.LASF91
+	.byte	0x84
+	.byte	0x10
+	.long	0x1206
+	.uleb128 0xb
+	.long	.LASF92
+	.byte	0x85
+	.byte	0x12
+	.long	0x122e
+	.uleb128 0xb
+	.long	.LASF93
+	.byte	0x86
+	.byte	0x10
+	.long	0x1256
+	.uleb128 0xb
+	.long	.LASF94
+	.byte	0x87
+	.byte	0x12
+	.long	0x128b
+	.byte	0
+	.uleb128 0x7
+	.long	.LASF95
+	.byte	0xa
+	.byte	0x2d
+	.byte	0x18
+	.long	0x583
+	.uleb128 0x2
+	.long	0x588
+	.uleb128 0xa
+	.long	.LASF96
+	.byte	0x30
+	.byte	0xc
+	.byte	0x21
+	.byte	0x8
+	.long	0x5e4
+	.uleb128 0x3
+	.long	.LASF97
+	.byte	0xc
+	.byte	0x22
+	.byte	0xd
+	.long	0x688
+	.byte	0
+	.uleb128 0x3
+	.long	.LASF98
+	.byte	0xc
+	.byte	0x23
+	.byte	0xb
+	.long	0x6a8
+	.byte	0x8
+	.uleb128 0x3
+	.long	.LASF99
+	.byte	0xc
+	.byte	0x24
+	.byte	0xa
+	.long	0x33c
+	.byte	0x10
+	.uleb128 0x3
+	.long	.LASF100
+	.byte	0xc
+	.byte	0x25
+	.byte	0x9
+	.long	0x32f
+	.byte	0x18
+	.uleb128 0x3
+	.long	.LASF101
+	.byte	0xc
+	.byte	0x26
+	.byte	0x9
+	.long	0x32f
+	.byte	0x20
+	.uleb128 0x3
+	.long	.LASF102
+	.byte	0xc
+	.byte	0x27
+	.byte	0x13
+	.long	0x714
+	.byte	0x28
+	.byte	0
+	.uleb128 0x7
+	.long	.LASF103
+	.byte	0xa
+	.byte	0x2e
+	.byte	0x17
+	.long	0x5f0
+	.uleb128 0x2
+	.long	0x5f5
+	.uleb128 0xa
+	.long	.LASF104
+	.byte	0x40
+	.byte	0xd
+	.byte	0x11
+	.byte	0x8
+	.long	0x637
+	.uleb128 0x3
+	.long	.LASF105
+	.byte	0xd
+	.byte	0x12
+	.byte	0x7
+	.long	0x315
+	.byte	0
+	.uleb128 0x3
+	.long	.LASF106
+	.byte	0xd
+	.byte	0x13
+	.byte	0x9
+	.long	0x32f
+	.byte	0x8
+	.uleb128 0x3
+	.long	.LASF107
+	.byte	0xd
+	.byte	0x14
+	.byte	0x9
+	.long	0x32f
+	.byte	0x10
+	.uleb128 0x3
+	.long	.LASF108
+	.byte	0xd
+	.byte	0x15
+	.byte	0x8
+	.long	0x1041
+	.byte	0x18
+	.byte	0
+	.uleb128 0x7
+	.long	.LASF109
+	.byte	0xe
+	.byte	0x19
+	.byte	0x19
+	.long	0x643
+	.uleb128 0x2
+	.long	0x648
+	.uleb128 0xa
+	.long	.LASF110
+	.byte	0x10
+	.byte	0xf
+	.byte	0x19
+	.byte	0x8
+	.long	0x670
+	.uleb128 0x3
+	.long	.LASF99
+	.byte	0xf
+	.byte	0x1a
+	.byte	0x13
+	.long	0x719
+	.byte	0
+	.uleb128 0x6
+	.string	"str"
+	.byte	0xf
+	.byte	0x1b
+	.byte	0x9
+	.long	0x349
+	.byte	0x8
+	.byte	0
+	.uleb128 0x7
+	.long	.LASF111
+	.byte	0xc
+	.byte	0xe
+	.byte	0x11
+	.long	0x33c
+	.uleb128 0x7
+	.long	.LASF112
+	.byte	0xc
+	.byte	0xf
+	.byte	0x11
+	.long	0x33c
+	.uleb128 0x7
+	.long	.LASF113
+	.byte	0xc
+	.byte	0x11
+	.byte	0x11
+	.long	0x694
+	.uleb128 0x2
+	.long	0x699
+	.uleb128 0x4
+	.long	0x322
+	.long	0x6a8
+	.uleb128 0x1
+	.long	0x670
+	.byte	0
+	.uleb128 0x7
+	.long	.LASF114
+	.byte	0xc
+	.byte	0x12
+	.byte	0x11
+	.long	0x6b4
+	.uleb128 0x2
+	.long	0x6b9
+	.uleb128 0x4
+	.long	0x315
+	.long	0x6cd
+	.uleb128 0x1
+	.long	0x670
+	.uleb128 0x1
+	.long	0x670
+	.byte	0
+	.uleb128 0xa
+	.long	.LASF115
+	.byte	0x20
+	.byte	0xc
+	.byte	0x1a
+	.byte	0x8
+	.long	0x70f
+	.uleb128 0x6
+	.string	"key"
+	.byte	0xc
+	.byte	0x1b
+	.byte	0x9
+	.long	0x670
+	.byte	0
+	.uleb128 0x6
+	.string	"elt"
+	.byte	0xc
+	.byte	0x1c
+	.byte	0x9
+	.long	0x67c
+	.byte	0x8
+	.uleb128 0x3
+	.long	.LASF116
+	.byte	0xc
+	.byte	0x1d
+	.byte	0x7
+	.long	0x322
+	.byte	0x10
+	.uleb128 0x3
+	.long	.LASF117
+	.byte	0xc
+	.byte	0x1e
+	.byte	0x12
+	.long	0x70f
+	.byte	0x18
+	.byte	0
+	.uleb128 0x2
+	.long	0x6cd
+	.uleb128 0x2
+	.long	0x70f
+	.uleb128 0x2
+	.long	0x370
+	.uleb128 0x28
+	.long	.LASF201
+	.byte	0x12
+	.byte	0x27
+	.byte	0xe
+	.long	0x2c3
+	.uleb128 0xa
+	.long	.LASF118
+	.byte	0x10
+	.byte	0x10
+	.byte	0x14
+	.byte	0x10
+	.long	0x752
+	.uleb128 0x3
+	.long	.LASF119
+	.byte	0x10
+	.byte	0x14
+	.byte	0x28
+	.long	0x349
+	.byte	0
+	.uleb128 0x3
+	.long	.LASF120
+	.byte	0x10
+	.byte	0x14
+	.byte	0x46
+	.long	0x752
+	.byte	0x8
+	.byte	0
+	.uleb128 0x2
+	.long	0x72a
+	.uleb128 0x7
+	.long	.LASF121
+	.byte	0x10
+	.byte	0x14
+	.byte	0x4f
+	.long	0x752
+	.uleb128 0x1c
+	.long	.LASF205
+	.long	0x43
+	.value	0x2f2
+	.long	0x79d
+	.uleb128 0xf
+	.long	.LASF122
+	.byte	0
+	.uleb128 0xf
+	.long	.LASF123
+	.byte	0
+	.uleb128 0xf
+	.long	.LASF124
+	.byte	0x1
+	.uleb128 0xf
+	.long	.LASF125
+	.byte	0x2
+	.uleb128 0xf
+	.long	.LASF126
+	.byte	0x3
+	.uleb128 0xf
+	.long	.LASF127
+	.byte	0x4
+	.uleb128 0xf
+	.long	.LASF128
+	.byte	0x5
+	.byte	0
+	.uleb128 0x8
+	.long	.LASF129
+	.byte	0x11
+	.value	0x2fc
+	.byte	0x15
+	.long	0x763
+	.uleb128 0x8
+	.long	.LASF130
+	.byte	0x11
+	.value	0x2fe
+	.byte	0x14
+	.long	0x7b7
+	.uleb128 0x2
+	.long	0x7bc
+	.uleb128 0x29
+	.string	"jco"
+	.byte	0x70
+	.byte	0x11
+	.value	0x321
+	.byte	0x7
+	.long	0x808
+	.uleb128 0x2a
+	.string	"hdr"
+	.byte	0x11
+	.value	0x322
+	.byte	0x17
+	.long	0x8e3
+	.uleb128 0x18
+	.long	.LASF132
+	.value	0x323
+	.byte	0x18
+	.long	0x918
+	.uleb128 0x18
+	.long	.LASF133
+	.value	0x324
+	.byte	0x19
+	.long	0x95d
+	.uleb128 0x18
+	.long	.LASF134
+	.value	0x325
+	.byte	0x1b
+	.long	0x985
+	.uleb128 0x18
+	.long	.LASF135
+	.value	0x326
+	.byte	0x1a
+	.long	0x9ad
+	.byte	0
+	.uleb128 0x8
+	.long	.LASF136
+	.byte	0x11
+	.value	0x2ff
+	.byte	0x17
+	.long	0x815
+	.uleb128 0x2
+	.long	0x81a
+	.uleb128 0x10
+	.long	.LASF137
+	.byte	0x30
+	.value	0x35e
+	.byte	0x8
+	.long	0x882
+	.uleb128 0xe
+	.string	"id"
+	.value	0x35f
+	.byte	0x6
+	.long	0x2e
+	.byte	0
+	.uleb128 0x9
+	.long	.LASF138
+	.value	0x360
+	.byte	0xc
+	.long	0x102b
+	.byte	0x8
+	.uleb128 0x9
+	.long	.LASF139
+	.value	0x361
+	.byte	0xc
+	.long	0x1030
+	.byte	0x10
+	.uleb128 0x9
+	.long	.LASF140
+	.value	0x362
+	.byte	0x8
+	.long	0x80
+	.byte	0x18
+	.uleb128 0xe
+	.string	"txt"
+	.value	0x363
+	.byte	0x8
+	.long	0x80
+	.byte	0x20
+	.uleb128 0x9
+	.long	.LASF141
+	.value	0x364
+	.byte	0x6
+	.long	0x2e
+	.byte	0x28
+	.uleb128 0x9
+	.long	.LASF142
+	.value	0x365
+	.byte	0xb
+	.long	0x101e
+	.byte	0x2c
+	.byte	0
+	.uleb128 0x8
+	.long	.LASF143
+	.byte	0x11
+	.value	0x300
+	.byte	0x1d
+	.long	0x88f
+	.uleb128 0x2
+	.long	0x894
+	.uleb128 0x10
+	.long	.LASF144
+	.byte	0x20
+	.value	0x371
+	.byte	0x8
+	.long	0x8e3
+	.uleb128 0x9
+	.long	.LASF145
+	.value	0x372
+	.byte	0x6
+	.long	0x2e
+	.byte	0
+	.uleb128 0x9
+	.long	.LASF146
+	.value	0x373
+	.byte	0x6
+	.long	0x2e
+	.byte	0x4
+	.uleb128 0x9
+	.long	.LASF147
+	.value	0x374
+	.byte	0x6
+	.long	0x2e
+	.byte	0x8
+	.uleb128 0x9
+	.long	.LASF148
+	.value	0x375
+	.byte	0xa
+	.long	0x3b8
+	.byte	0x10
+	.uleb128 0x9
+	.long	.LASF149
+	.value	0x376
+	.byte	0x6
+	.long	0x2e
+	.byte	0x18
+	.byte	0
+	.uleb128 0x10
+	.long	.LASF150
+	.byte	0x18
+	.value	0x303
+	.byte	0x8
+	.long	0x918
+	.uleb128 0xe
+	.string	"tag"
+	.value	0x304
+	.byte	0x10
+	.long	0x79d
+	.byte	0
+	.uleb128 0xe
+	.string	"pos"
+	.value	0x305
+	.byte	0x9
+	.long	0x4c8
+	.byte	0x8
+	.uleb128 0x9
+	.long	.LASF151
+	.value	0x306
+	.byte	0x10
+	.long	0x808
+	.byte	0x10
+	.byte	0
+	.uleb128 0x10
+	.long	.LASF152
+	.byte	0x70
+	.value	0x309
+	.byte	0x8
+	.long	0x94d
+	.uleb128 0xe
+	.string	"hdr"
+	.value	0x30a
+	.byte	0x17
+	.long	0x8e3
+	.byte	0
+	.uleb128 0x9
+	.long	.LASF153
+	.value	0x30b
+	.byte	0x10
+	.long	0x2e1
+	.byte	0x18
+	.uleb128 0x9
+	.long	.LASF154
+	.value	0x30c
+	.byte	0x12
+	.long	0x94d
+	.byte	0x20
+	.byte	0
+	.uleb128 0x14
+	.long	0x7aa
+	.long	0x95d
+	.uleb128 0x15
+	.long	0x4a
+	.byte	0x9
+	.byte	0
+	.uleb128 0x10
+	.long	.LASF155
+	.byte	0x20
+	.value	0x30f
+	.byte	0x8
+	.long	0x985
+	.uleb128 0xe
+	.string	"hdr"
+	.value	0x310
+	.byte	0x17
+	.long	0x8e3
+	.byte	0
+	.uleb128 0x9
+	.long	.LASF110
+	.value	0x311
+	.byte	0x10
+	.long	0x637
+	.byte	0x18
+	.byte	0
+	.uleb128 0x10
+	.long	.LASF156
+	.byte	0x20
+	.value	0x314
+	.byte	0x8
+	.long	0x9ad
+	.uleb128 0xe
+	.string	"hdr"
+	.value	0x315
+	.byte	0x17
+	.long	0x8e3
+	.byte	0
+	.uleb128 0xe
+	.string	"txt"
+	.value	0x316
+	.byte	0x10
+	.long	0x349
+	.byte	0x18
+	.byte	0
+	.uleb128 0x10
+	.long	.LASF157
+	.byte	0x38
+	.value	0x319
+	.byte	0x8
+	.long	0x9fb
+	.uleb128 0xe
+	.string	"hdr"
+	.value	0x31a
+	.byte	0x17
+	.long	0x8e3
+	.byte	0
+	.uleb128 0xe
+	.string	"pkg"
+	.value	0x31b
+	.byte	0x10
+	.long	0x349
+	.byte	0x18
+	.uleb128 0x9
+	.long	.LASF158
+	.value	0x31c
+	.byte	0xd
+	.long	0x757
+	.byte	0x20
+	.uleb128 0xe
+	.string	"id"
+	.value	0x31d
+	.byte	0x9
+	.long	0x349
+	.byte	0x28
+	.uleb128 0x9
+	.long	.LASF159
+	.value	0x31e
+	.byte	0x7
+	.long	0x315
+	.byte	0x30
+	.byte	0
+	.uleb128 0x10
+	.long	.LASF160
+	.byte	0x10
+	.value	0x329
+	.byte	0x10
+	.long	0xa23
+	.uleb128 0x9
+	.long	.LASF119
+	.value	0x329
+	.byte	0x2c
+	.long	0x7aa
+	.byte	0
+	.uleb128 0x9
+	.long	.LASF120
+	.value	0x329
+	.byte	0x4c
+	.long	0xa23
+	.byte	0x8
+	.byte	0
+	.uleb128 0x2
+	.long	0x9fb
+	.uleb128 0x8
+	.long	.LASF161
+	.byte	0x11
+	.value	0x329
+	.byte	0x55
+	.long	0xa23
+	.uleb128 0x2b
+	.long	.LASF162
+	.value	0x140
+	.byte	0x11
+	.value	0x329
+	.byte	0x6a
+	.long	0xc30
+	.uleb128 0x9
+	.long	.LASF163
+	.value	0x329
+	.byte	0x92
+	.long	0xc49
+	.byte	0
+	.uleb128 0x9
+	.long	.LASF164
+	.value	0x329
+	.byte	0xc1
+	.long	0xc5d
+	.byte	0x8
+	.uleb128 0x9
+	.long	.LASF165
+	.value	0x329
+	.byte	0xe7
+	.long	0xc72
+	.byte	0x10
+	.uleb128 0x5
+	.long	.LASF166
+	.value	0x10a
+	.long	0xc86
+	.byte	0x18
+	.uleb128 0x5
+	.long	.LASF167
+	.value	0x130
+	.long	0xc9b
+	.byte	0x20
+	.uleb128 0x5
+	.long	.LASF168
+	.value	0x152
+	.long	0xcd2
+	.byte	0x28
+	.uleb128 0x5
+	.long	.LASF169
+	.value	0x1a2
+	.long	0xcf5
+	.byte	0x30
+	.uleb128 0x5
+	.long	.LASF170
+	.value	0x1f7
+	.long	0xd09
+	.byte	0x38
+	.uleb128 0x5
+	.long	.LASF171
+	.value	0x218
+	.long	0xd19
+	.byte	0x40
+	.uleb128 0x5
+	.long	.LASF172
+	.value	0x23d
+	.long	0xd32
+	.byte	0x48
+	.uleb128 0x5
+	.long	.LASF173
+	.value	0x26a
+	.long	0xd57
+	.byte	0x50
+	.uleb128 0x5
+	.long	.LASF174
+	.value	0x2aa
+	.long	0xd75
+	.byte	0x58
+	.uleb128 0x5
+	.long	.LASF175
+	.value	0x2fc
+	.long	0xda7
+	.byte	0x60
+	.uleb128 0x1d
+	.string	"Elt"
+	.value	0x34c
+	.long	0xdc0
+	.byte	0x68
+	.uleb128 0x5
+	.long	.LASF176
+	.value	0x378
+	.long	0xdd9
+	.byte	0x70
+	.uleb128 0x5
+	.long	.LASF177
+	.value	0x3a5
+	.long	0xd09
+	.byte	0x78
+	.uleb128 0x5
+	.long	.LASF178
+	.value	0x3c8
+	.long	0xded
+	.byte	0x80
+	.uleb128 0x5
+	.long	.LASF179
+	.value	0x3e8
+	.long	0xe06
+	.byte	0x88
+	.uleb128 0x5
+	.long	.LASF180
+	.value	0x411
+	.long	0xe06
+	.byte	0x90
+	.uleb128 0x5
+	.long	.LASF181
+	.value	0x43b
+	.long	0xe06
+	.byte	0x98
+	.uleb128 0x5
+	.long	.LASF182
+	.value	0x46c
+	.long	0xd09
+	.byte	0xa0
+	.uleb128 0x5
+	.long	.LASF183
+	.value	0x491
+	.long	0xd32
+	.byte	0xa8
+	.uleb128 0x5
+	.long	.LASF184
+	.value	0x4c6
+	.long	0xe33
+	.byte	0xb0
+	.uleb128 0x5
+	.long	.LASF185
+	.value	0x509
+	.long	0xe51
+	.byte	0xb8
+	.uleb128 0x1d
+	.string	"Map"
+	.value	0x55c
+	.long	0xe6a
+	.byte	0xc0
+	.uleb128 0x5
+	.long	.LASF186
+	.value	0x599
+	.long	0xe6a
+	.byte	0xc8
+	.uleb128 0x5
+	.long	.LASF187
+	.value	0x5d7
+	.long	0xd09
+	.byte	0xd0
+	.uleb128 0x5
+	.long	.LASF188
+	.value	0x5ff
+	.long	0xd09
+	.byte	0xd8
+	.uleb128 0x5
+	.long	.LASF189
+	.value	0x628
+	.long	0xd32
+	.byte	0xe0
+	.uleb128 0x5
+	.long	.LASF190
+	.value	0x65d
+	.long	0xd32
+	.byte	0xe8
+	.uleb128 0x5
+	.long	.LASF191
+	.value	0x68b
+	.long	0xe83
+	.byte	0xf0
+	.uleb128 0x5
+	.long	.LASF192
+	.value	0x6b2
+	.long	0xea1
+	.byte	0xf8
+	.uleb128 0x11
+	.long	.LASF193
+	.value	0x6fa
+	.long	0xeba
+	.value	0x100
+	.uleb128 0x11
+	.long	.LASF194
+	.value	0x72c
+	.long	0xed3
+	.value	0x108
+	.uleb128 0x11
+	.long	.LASF195
+	.value	0x752
+	.long	0xef1
+	.value	0x110
+	.uleb128 0x11
+	.long	.LASF196
+	.value	0x7a4
+	.long	0xf0f
+	.value	0x118
+	.uleb128 0x11
+	.long	.LASF197
+	.value	0x7ed
+	.long	0xf29
+	.value	0x120
+	.uleb128 0x11
+	.long	.LASF198
+	.value	0x81b
+	.long	0xf60
+	.value	0x128
+	.uleb128 0x11
+	.long	.LASF199
+	.value	0x85e
+	.long	0xf8d
+	.value	0x130
+	.uleb128 0x11
+	.long	.LASF200
+	.value	0x8ba
+	.long	0xfab
+	.value	0x138
+	.byte	0
+	.uleb128 0x1a
+	.long	0xa35
+	.uleb128 0x4
+	.long	0xa28
+	.long	0xc49
+	.uleb128 0x1
+	.long	0x7aa
+	.uleb128 0x1
+	.long	0xa28
+	.byte	0
+	.uleb128 0x2
+	.long	0xc35
+	.uleb128 0x4
+	.long	0xa28
+	.long	0xc5d
+	.uleb128 0x1
+	.long	0x7aa
+	.byte	0
+	.uleb128 0x2
+	.long	0xc4e
+	.uleb128 0x4
+	.long	0xa28
+	.long	0xc72
+	.uleb128 0x1
+	.long	0x2e
+	.uleb128 0x13
+	.byte	0
+	.uleb128 0x2
+	.long	0xc62
+	.uleb128 0x4
+	.long	0xa28
+	.long	0xc86
+	.uleb128 0x1
+	.long	0x4be
+	.byte	0
+	.uleb128 0x2
+	.long	0xc77
+	.uleb128 0x4
+	.long	0xa28
+	.long	0xc9b
+	.uleb128 0x1
+	.long	0x7aa
+	.uleb128 0x13
+	.byte	0
+	.uleb128 0x2
+	.long	0xc8b
+	.uleb128 0x4
+	.long	0x315
+	.long	0xcb9
+	.uleb128 0x1
+	.long	0xa28
+	.uleb128 0x1
+	.long	0xa28
+	.uleb128 0x1
+	.long	0xcb9
+	.byte	0
+	.uleb128 0x2
+	.long	0xcbe
+	.uleb128 0x4
+	.long	0x315
+	.long	0xcd2
+	.uleb128 0x1
+	.long	0x7aa
+	.uleb128 0x1
+	.long	0x7aa
+	.byte	0
+	.uleb128 0x2
+	.long	0xca0
+	.uleb128 0x4
+	.long	0x7aa
+	.long	0xcf5
+	.uleb128 0x1
+	.long	0xa28
+	.uleb128 0x1
+	.long	0x7aa
+	.uleb128 0x1
+	.long	0xcb9
+	.uleb128 0x1
+	.long	0x4c3
+	.byte	0
+	.uleb128 0x2
+	.long	0xcd7
+	.uleb128 0x4
+	.long	0xa28
+	.long	0xd09
+	.uleb128 0x1
+	.long	0xa28
+	.byte	0
+	.uleb128 0x2
+	.long	0xcfa
+	.uleb128 0x12
+	.long	0xd19
+	.uleb128 0x1
+	.long	0xa28
+	.byte	0
+	.uleb128 0x2
+	.long	0xd0e
+	.uleb128 0x4
+	.long	0xa28
+	.long	0xd32
+	.uleb128 0x1
+	.long	0xa28
+	.uleb128 0x1
+	.long	0xa28
+	.byte	0
+	.uleb128 0x2
+	.long	0xd1e
+	.uleb128 0x12
+	.long	0xd47
+	.uleb128 0x1
+	.long	0xa28
+	.uleb128 0x1
+	.long	0xd47
+	.byte	0
+	.uleb128 0x2
+	.long	0xd4c
+	.uleb128 0x12
+	.long	0xd57
+	.uleb128 0x1
+	.long	0x7aa
+	.byte	0
+	.uleb128 0x2
+	.long	0xd37
+	.uleb128 0x4
+	.long	0xa28
+	.long	0xd75
+	.uleb128 0x1
+	.long	0xa28
+	.uleb128 0x1
+	.long	0xa28
+	.uleb128 0x1
+	.long	0xd47
+	.byte	0
+	.uleb128 0x2
+	.long	0xd5c
+	.uleb128 0x4
+	.long	0xa28
+	.long	0xd93
+	.uleb128 0x1
+	.long	0xa28
+	.uleb128 0x1
+	.long	0xd47
+	.uleb128 0x1
+	.long	0xd93
+	.byte	0
+	.uleb128 0x2
+	.long	0xd98
+	.uleb128 0x4
+	.long	0x315
+	.long	0xda7
+	.uleb128 0x1
+	.long	0x7aa
+	.byte	0
+	.uleb128 0x2
+	.long	0xd7a
+	.uleb128 0x4
+	.long	0x7aa
+	.long	0xdc0
+	.uleb128 0x1
+	.long	0xa28
+	.uleb128 0x1
+	.long	0x32f
+	.byte	0
+	.uleb128 0x2
+	.long	0xdac
+	.uleb128 0x4
+	.long	0xa28
+	.long	0xdd9
+	.uleb128 0x1
+	.long	0xa28
+	.uleb128 0x1
+	.long	0x32f
+	.byte	0
+	.uleb128 0x2
+	.long	0xdc5
+	.uleb128 0x4
+	.long	0x32f
+	.long	0xded
+	.uleb128 0x1
+	.long	0xa28
+	.byte	0
+	.uleb128 0x2
+	.long	0xdde
+	.uleb128 0x4
+	.long	0x315
+	.long	0xe06
+	.uleb128 0x1
+	.long	0xa28
+	.uleb128 0x1
+	.long	0x32f
+	.byte	0
+	.uleb128 0x2
+	.long	0xdf2
+	.uleb128 0x4
+	.long	0xa28
+	.long	0xe1f
+	.uleb128 0x1
+	.long	0xa28
+	.uleb128 0x1
+	.long	0xe1f
+	.byte	0
+	.uleb128 0x2
+	.long	0xe24
+	.uleb128 0x4
+	.long	0x7aa
+	.long	0xe33
+	.uleb128 0x1
+	.long	0x7aa
+	.byte	0
+	.uleb128 0x2
+	.long	0xe0b
+	.uleb128 0x4
+	.long	0xa28
+	.long	0xe51
+	.uleb128 0x1
+	.long	0xa28
+	.uleb128 0x1
+	.long	0xa28
+	.uleb128 0x1
+	.long	0xe1f
+	.byte	0
+	.uleb128 0x2
+	.long	0xe38
+	.uleb128 0x4
+	.long	0xa28
+	.long	0xe6a
+	.uleb128 0x1
+	.long	0xe1f
+	.uleb128 0x1
+	.long	0xa28
+	.byte	0
+	.uleb128 0x2
+	.long	0xe56
+	.uleb128 0x4
+	.long	0x315
+	.long	0xe83
+	.uleb128 0x1
+	.long	0xa28
+	.uleb128 0x1
+	.long	0x7aa
+	.byte	0
+	.uleb128 0x2
+	.long	0xe6f
+	.uleb128 0x4
+	.long	0x315
+	.long	0xea1
+	.uleb128 0x1
+	.long	0xa28
+	.uleb128 0x1
+	.long	0x7aa
+	.uleb128 0x1
+	.long	0xcb9
+	.byte	0
+	.uleb128 0x2
+	.long	0xe88
+	.uleb128 0x4
+	.long	0x315
+	.long	0xeba
+	.uleb128 0x1
+	.long	0xa28
+	.uleb128 0x1
+	.long	0xa28
+	.byte	0
+	.uleb128 0x2
+	.long	0xea6
+	.uleb128 0x4
+	.long	0x2e
+	.long	0xed3
+	.uleb128 0x1
+	.long	0xa28
+	.uleb128 0x1
+	.long	0x7aa
+	.byte	0
+	.uleb128 0x2
+	.long	0xebf
+	.uleb128 0x4
+	.long	0x2e
+	.long	0xef1
+	.uleb128 0x1
+	.long	0xa28
+	.uleb128 0x1
+	.long	0x7aa
+	.uleb128 0x1
+	.long	0xcb9
+	.byte	0
+	.uleb128 0x2
+	.long	0xed8
+	.uleb128 0x4
+	.long	0xa28
+	.long	0xf0f
+	.uleb128 0x1
+	.long	0xa28
+	.uleb128 0x1
+	.long	0x7aa
+	.uleb128 0x1
+	.long	0xcb9
+	.byte	0
+	.uleb128 0x2
+	.long	0xef6
+	.uleb128 0x12
+	.long	0xf24
+	.uleb128 0x1
+	.long	0xf24
+	.uleb128 0x1
+	.long	0xa28
+	.byte	0
+	.uleb128 0x2
+	.long	0x7aa
+	.uleb128 0x2
+	.long	0xf14
+	.uleb128 0x4
+	.long	0x2e
+	.long	0xf47
+	.uleb128 0x1
+	.long	0x2c3
+	.uleb128 0x1
+	.long	0xa28
+	.uleb128 0x1
+	.long	0xf47
+	.byte	0
+	.uleb128 0x2
+	.long	0xf4c
+	.uleb128 0x4
+	.long	0x2e
+	.long	0xf60
+	.uleb128 0x1
+	.long	0x2c3
+	.uleb128 0x1
+	.long	0x7aa
+	.byte	0
+	.uleb128 0x2
+	.long	0xf2e
+	.uleb128 0x4
+	.long	0x2e
+	.long	0xf8d
+	.uleb128 0x1
+	.long	0x2c3
+	.uleb128 0x1
+	.long	0xa28
+	.uleb128 0x1
+	.long	0xf47
+	.uleb128 0x1
+	.long	0x80
+	.uleb128 0x1
+	.long	0x80
+	.uleb128 0x1
+	.long	0x80
+	.byte	0
+	.uleb128 0x2
+	.long	0xf65
+	.uleb128 0x4
+	.long	0x2e
+	.long	0xfab
+	.uleb128 0x1
+	.long	0x3b8
+	.uleb128 0x1
+	.long	0x356
+	.uleb128 0x1
+	.long	0xa28
+	.byte	0
+	.uleb128 0x2
+	.long	0xf92
+	.uleb128 0x2c
+	.long	.LASF202
+	.byte	0x11
+	.value	0x329
+	.value	0x913
+	.long	0xfbe
+	.uleb128 0x2
+	.long	0xc30
+	.uleb128 0x8
+	.long	.LASF203
+	.byte	0x11
+	.value	0x353
+	.byte	0xe
+	.long	0xfd0
+	.uleb128 0x12
+	.long	0xfe0
+	.uleb128 0x1
+	.long	0x882
+	.uleb128 0x1
+	.long	0x7aa
+	.byte	0
+	.uleb128 0x8
+	.long	.LASF204
+	.byte	0x11
+	.value	0x354
+	.byte	0xf
+	.long	0xfed
+	.uleb128 0x4
+	.long	0x4d4
+	.long	0xffc
+	.uleb128 0x1
+	.long	0x7aa
+	.byte	0
+	.uleb128 0x1c
+	.long	.LASF206
+	.long	0x43
+	.value	0x356
+	.long	0x101e
+	.uleb128 0xf
+	.long	.LASF207
+	.byte	0
+	.uleb128 0xf
+	.long	.LASF208
+	.byte	0x1
+	.uleb128 0xf
+	.long	.LASF209
+	.byte	0x2
+	.byte	0
+	.uleb128 0x8
+	.long	.LASF210
+	.byte	0x11
+	.value	0x35c
+	.byte	0x17
+	.long	0xffc
+	.uleb128 0x2
+	.long	0xfc3
+	.uleb128 0x2
+	.long	0xfe0
+	.uleb128 0x7
+	.long	.LASF211
+	.byte	0xd
+	.byte	0xe
+	.byte	0x14
+	.long	0x308
+	.uleb128 0x14
+	.long	0x1035
+	.long	0x1051
+	.uleb128 0x15
+	.long	0x4a
+	.byte	0x9
+	.byte	0
+	.uleb128 0xa
+	.long	.LASF83
+	.byte	0x10
+	.byte	0xb
+	.byte	0x33
+	.byte	0x8
+	.long	0x1093
+	.uleb128 0x6
+	.string	"tag"
+	.byte	0xb
+	.byte	0x34
+	.byte	0x8
+	.long	0x2d4
+	.byte	0
+	.uleb128 0x3
+	.long	.LASF212
+	.byte	0xb
+	.byte	0x35
+	.byte	0x8
+	.long	0x2d4
+	.byte	0x1
+	.uleb128 0x3
+	.long	.LASF213
+	.byte	0xb
+	.byte	0x36
+	.byte	0x9
+	.long	0x2e1
+	.byte	0x2
+	.uleb128 0x6
+	.string	"pos"
+	.byte	0xb
+	.byte	0x37
+	.byte	0x9
+	.long	0x4c8
+	.byte	0x8
+	.byte	0
+	.uleb128 0xa
+	.long	.LASF84
+	.byte	0x20
+	.byte	0xb
+	.byte	0x3b
+	.byte	0x8
+	.long	0x10c8
+	.uleb128 0x6
+	.string	"hdr"
+	.byte	0xb
+	.byte	0x3c
+	.byte	0xf
+	.long	0x1051
+	.byte	0
+	.uleb128 0x3
+	.long	.LASF214
+	.byte	0xb
+	.byte	0x3d
+	.byte	0x8
+	.long	0x4d4
+	.byte	0x10
+	.uleb128 0x3
+	.long	.LASF215
+	.byte	0xb
+	.byte	0x3e
+	.byte	0x8
+	.long	0x4d4
+	.byte	0x18
+	.byte	0
+	.uleb128 0xa
+	.long	.LASF85
+	.byte	0x28
+	.byte	0xb
+	.byte	0x41
+	.byte	0x8
+	.long	0x110a
+	.uleb128 0x6
+	.string	"hdr"
+	.byte	0xb
+	.byte	0x42
+	.byte	0xf
+	.long	0x1051
+	.byte	0
+	.uleb128 0x3
+	.long	.LASF216
+	.byte	0xb
+	.byte	0x43
+	.byte	0x8
+	.long	0x4d4
+	.byte	0x10
+	.uleb128 0x6
+	.string	"sym"
+	.byte	0xb
+	.byte	0x44
+	.byte	0x9
+	.long	0x637
+	.byte	0x18
+	.uleb128 0x3
+	.long	.LASF217
+	.byte	0xb
+	.byte	0x45
+	.byte	0x6
+	.long	0x2e
+	.byte	0x20
+	.byte	0
+	.uleb128 0xa
+	.long	.LASF86
+	.byte	0x20
+	.byte	0xb
+	.byte	0x48
+	.byte	0x8
+	.long	0x113f
+	.uleb128 0x6
+	.string	"hdr"
+	.byte	0xb
+	.byte	0x49
+	.byte	0xf
+	.long	0x1051
+	.byte	0
+	.uleb128 0x3
+	.long	.LASF218
+	.byte	0xb
+	.byte	0x4a
+	.byte	0x8
+	.long	0x4d4
+	.byte	0x10
+	.uleb128 0x3
+	.long	.LASF219
+	.byte	0xb
+	.byte	0x4b
+	.byte	0x8
+	.long	0x577
+	.byte	0x18
+	.byte	0
+	.uleb128 0xa
+	.long	.LASF87
+	.byte	0x18
+	.byte	0xb
+	.byte	0x4e
+	.byte	0x8
+	.long	0x1167
+	.uleb128 0x6
+	.string	"hdr"
+	.byte	0xb
+	.byte	0x4f
+	.byte	0xf
+	.long	0x1051
+	.byte	0
+	.uleb128 0x6
+	.string	"val"
+	.byte	0xb
+	.byte	0x50
+	.byte	0x7
+	.long	0x5e4
+	.byte	0x10
+	.byte	0
+	.uleb128 0xa
+	.long	.LASF88
+	.byte	0x20
+	.byte	0xb
+	.byte	0x53
+	.byte	0x8
+	.long	0x119c
+	.uleb128 0x6
+	.string	"hdr"
+	.byte	0xb
+	.byte	0x54
+	.byte	0xf
+	.long	0x1051
+	.byte	0
+	.uleb128 0x6
+	.string	"num"
+	.byte	0xb
+	.byte	0x55
+	.byte	0x8
+	.long	0x4d4
+	.byte	0x10
+	.uleb128 0x6
+	.string	"den"
+	.byte	0xb
+	.byte	0x56
+	.byte	0x8
+	.long	0x4d4
+	.byte	0x18
+	.byte	0
+	.uleb128 0xa
+	.long	.LASF89
+	.byte	0x20
+	.byte	0xb
+	.byte	0x59
+	.byte	0x8
+	.long	0x11d1
+	.uleb128 0x6
+	.string	"hdr"
+	.byte	0xb
+	.byte	0x5a
+	.byte	0xf
+	.long	0x1051
+	.byte	0
+	.uleb128 0x3
+	.long	.LASF220
+	.byte	0xb
+	.byte	0x5b
+	.byte	0x8
+	.long	0x2d4
+	.byte	0x10
+	.uleb128 0x6
+	.string	"val"
+	.byte	0xb
+	.byte	0x5c
+	.byte	0x9
+	.long	0x363
+	.byte	0x18
+	.byte	0
+	.uleb128 0xa
+	.long	.LASF90
+	.byte	0x20
+	.byte	0xb
+	.byte	0x5f
+	.byte	0x8
+	.long	0x1206
+	.uleb128 0x6
+	.string	"hdr"
+	.byte	0xb
+	.byte	0x60
+	.byte	0xf
+	.long	0x1051
+	.byte	0
+	.uleb128 0x3
+	.long	.LASF221
+	.byte	0xb
+	.byte	0x61
+	.byte	0x8
+	.long	0x4d4
+	.byte	0x10
+	.uleb128 0x3
+	.long	.LASF222
+	.byte	0xb
+	.byte	0x62
+	.byte	0x8
+	.long	0x4d4
+	.byte	0x18
+	.byte	0
+	.uleb128 0xa
+	.long	.LASF91
+	.byte	0x18
+	.byte	0xb
+	.byte	0x65
+	.byte	0x8
+	.long	0x122e
+	.uleb128 0x6
+	.string	"hdr"
+	.byte	0xb
+	.byte	0x66
+	.byte	0xf
+	.long	0x1051
+	.byte	0
+	.uleb128 0x6
+	.string	"val"
+	.byte	0xb
+	.byte	0x67
+	.byte	0x6
+	.long	0x2e
+	.byte	0x10
+	.byte	0
+	.uleb128 0xa
+	.long	.LASF92
+	.byte	0x18
+	.byte	0xb
+	.byte	0x6a
+	.byte	0x8
+	.long	0x1256
+	.uleb128 0x6
+	.string	"hdr"
+	.byte	0xb
+	.byte	0x6b
+	.byte	0xf
+	.long	0x1051
+	.byte	0
+	.uleb128 0x6
+	.string	"val"
+	.byte	0xb
+	.byte	0x6c
+	.byte	0x9
+	.long	0x349
+	.byte	0x10
+	.byte	0
+	.uleb128 0xa
+	.long	.LASF93
+	.byte	0x20
+	.byte	0xb
+	.byte	0x6f
+	.byte	0x8
+	.long	0x128b
+	.uleb128 0x6
+	.string	"hdr"
+	.byte	0xb
+	.byte	0x70
+	.byte	0xf
+	.long	0x1051
+	.byte	0
+	.uleb128 0x3
+	.long	.LASF214
+	.byte	0xb
+	.byte	0x71
+	.byte	0x8
+	.long	0x4d4
+	.byte	0x10
+	.uleb128 0x3
+	.long	.LASF215
+	.byte	0xb
+	.byte	0x72
+	.byte	0x8
+	.long	0x4d4
+	.byte	0x18
+	.byte	0
+	.uleb128 0xa
+	.long	.LASF94
+	.byte	0x68
+	.byte	0xb
+	.byte	0x75
+	.byte	0x8
+	.long	0x12c0
+	.uleb128 0x6
+	.string	"hdr"
+	.byte	0xb
+	.byte	0x76
+	.byte	0xf
+	.long	0x1051
+	.byte	0
+	.uleb128 0x3
+	.long	.LASF153
+	.byte	0xb
+	.byte	0x77
+	.byte	0x9
+	.long	0x32f
+	.byte	0x10
+	.uleb128 0x3
+	.long	.LASF154
+	.byte	0xb
+	.byte	0x78
+	.byte	0x8
+	.long	0x12c0
+	.byte	0x18
+	.byte	0
+	.uleb128 0x14
+	.long	0x4d4
+	.long	0x12d0
+	.uleb128 0x15
+	.long	0x4a
+	.byte	0x9
+	.byte	0
+	.uleb128 0x1e
+	.long	.LASF223
+	.byte	0x6
+	.long	0x12ea
+	.uleb128 0x1
+	.long	0x349
+	.uleb128 0x1
+	.long	0x349
+	.uleb128 0x1
+	.long	0x349
+	.byte	0
+	.uleb128 0xc
+	.long	.LASF225
+	.byte	0x8
+	.byte	0x17
+	.byte	0xf
+	.long	0x349
+	.long	0x1300
+	.uleb128 0x1
+	.long	0x37d
+	.byte	0
+	.uleb128 0x2d
+	.long	.LASF224
+	.byte	0x11
+	.value	0x37b
+	.byte	0xd
+	.long	0x1318
+	.uleb128 0x1
+	.long	0x882
+	.uleb128 0x1
+	.long	0x7aa
+	.byte	0
+	.uleb128 0xc
+	.long	.LASF226
+	.byte	0x14
+	.byte	0x26
+	.byte	0xc
+	.long	0x2e
+	.long	0x1334
+	.uleb128 0x1
+	.long	0x2c3
+	.uleb128 0x1
+	.long	0x2cf
+	.uleb128 0x13
+	.byte	0
+	.uleb128 0xc
+	.long	.LASF227
+	.byte	0x15
+	.byte	0x74
+	.byte	0x11
+	.long	0x7aa
+	.long	0x1354
+	.uleb128 0x1
+	.long	0x7aa
+	.uleb128 0x1
+	.long	0xa28
+	.uleb128 0x1
+	.long	0x7aa
+	.byte	0
+	.uleb128 0xc
+	.long	.LASF228
+	.byte	0x15
+	.byte	0x7d
+	.byte	0x11
+	.long	0x7aa
+	.long	0x136f
+	.uleb128 0x1
+	.long	0x7aa
+	.uleb128 0x1
+	.long	0x7aa
+	.byte	0
+	.uleb128 0xc
+	.long	.LASF229
+	.byte	0x15
+	.byte	0x94
+	.byte	0x11
+	.long	0x7aa
+	.long	0x1390
+	.uleb128 0x1
+	.long	0x7aa
+	.uleb128 0x1
+	.long	0x7aa
+	.uleb128 0x1
+	.long	0x2e
+	.uleb128 0x13
+	.byte	0
+	.uleb128 0xc
+	.long	.LASF230
+	.byte	0x15
+	.byte	0x76
+	.byte	0x11
+	.long	0x7aa
+	.long	0x13ab
+	.uleb128 0x1
+	.long	0x7aa
+	.uleb128 0x1
+	.long	0x7aa
+	.byte	0
+	.uleb128 0xc
+	.long	.LASF231
+	.byte	0x15
+	.byte	0x53
+	.byte	0x11
+	.long	0x7aa
+	.long	0x13cb
+	.uleb128 0x1
+	.long	0x2e
+	.uleb128 0x1
+	.long	0x7aa
+	.uleb128 0x1
+	.long	0x7aa
+	.byte	0
+	.uleb128 0xc
+	.long	.LASF232
+	.byte	0x15
+	.byte	0x35
+	.byte	0x11
+	.long	0x7aa
+	.long	0x13e1
+	.uleb128 0x1
+	.long	0x349
+	.byte	0
+	.uleb128 0xc
+	.long	.LASF233
+	.byte	0x10
+	.byte	0x1c
+	.byte	0xf
+	.long	0x349
+	.long	0x13f7
+	.uleb128 0x1
+	.long	0x356
+	.byte	0
+	.uleb128 0xc
+	.long	.LASF234
+	.byte	0x15
+	.byte	0x6d
+	.byte	0x11
+	.long	0x7aa
+	.long	0x140d
+	.uleb128 0x1
+	.long	0x7aa
+	.byte	0
+	.uleb128 0xc
+	.long	.LASF235
+	.byte	0x15
+	.byte	0x81
+	.byte	0x11
+	.long	0x7aa
+	.long	0x1423
+	.uleb128 0x1
+	.long	0x7aa
+	.byte	0
+	.uleb128 0x2e
+	.long	.LASF236
+	.byte	0x15
+	.byte	0x66
+	.byte	0x11
+	.long	0x7aa
+	.long	0x1435
+	.uleb128 0x13
+	.byte	0
+	.uleb128 0x2f
+	.long	.LASF237
+	.byte	0x11
+	.value	0x379
+	.byte	0x19
+	.long	0x882
+	.long	0x1451
+	.uleb128 0x1
+	.long	0x3b8
+	.uleb128 0x1
+	.long	0x315
+	.byte	0
+	.uleb128 0xc
+	.long	.LASF238
+	.byte	0x9
+	.byte	0x1d
+	.byte	0x10
+	.long	0x3b8
+	.long	0x1467
+	.uleb128 0x1
+	.long	0x37d
+	.byte	0
+	.uleb128 0x30
+	.long	.LASF249
+	.byte	0x8
+	.byte	0x12
+	.byte	0xf
+	.long	0x37d
+	.uleb128 0x19
+	.long	.LASF240
+	.byte	0x12
+	.byte	0x2a
+	.uleb128 0x1e
+	.long	.LASF239
+	.byte	0x15
+	.long	0x148f
+	.uleb128 0x1
+	.long	0x80
+	.uleb128 0x1
+	.long	0x148f
+	.byte	0
+	.uleb128 0x2
+	.long	0x1494
+	.uleb128 0x31
+	.uleb128 0x32
+	.long	.LASF241
+	.byte	0xb
+	.value	0x104
+	.byte	0xd
+	.uleb128 0x33
+	.long	.LASF250
+	.byte	0x17
+	.byte	0x4
+	.byte	0x6
+	.long	0x14ac
+	.uleb128 0x13
+	.byte	0
+	.uleb128 0x19
+	.long	.LASF242
+	.byte	0x12
+	.byte	0x29
+	.uleb128 0x19
+	.long	.LASF243
+	.byte	0x16
+	.byte	0x15
+	.uleb128 0x34
+	.long	.LASF251
+	.byte	0x1
+	.byte	0x1a
+	.byte	0x1
+	.quad	.LFB1
+	.quad	.LFE1-.LFB1
+	.uleb128 0x1
+	.byte	0x9c
+	.long	0x1513
+	.uleb128 0x1f
+	.long	.LASF244
+	.byte	0x1c
+	.byte	0xb
+	.long	0x7aa
+	.uleb128 0x3
+	.byte	0x91
+	.sleb128 -72
+	.uleb128 0x20
+	.string	"buf"
+	.byte	0x1d
+	.byte	0x9
+	.long	0x37d
+	.uleb128 0x2
+	.byte	0x91
+	.sleb128 -56
+	.uleb128 0x20
+	.string	"txt"
+	.byte	0x1e
+	.byte	0x8
+	.long	0x80
+	.uleb128 0x3
+	.byte	0x91
+	.sleb128 -80
+	.uleb128 0x1f
+	.long	.LASF245
+	.byte	0x1f
+	.byte	0x13
+	.long	0x882
+	.uleb128 0x2
+	.byte	0x91
+	.sleb128 -64
+	.byte	0
+	.uleb128 0x35
+	.long	.LASF252
+	.byte	0x1
+	.byte	0xf
+	.byte	0x1
+	.quad	.LFB0
+	.quad	.LFE0-.LFB0
+	.uleb128 0x1
+	.byte	0x9c
+	.byte	0
+	.section	.debug_abbrev,"",@progbits
+.Ldebug_abbrev0:
+	.uleb128 0x1
+	.uleb128 0x5
+	.byte	0
+	.uleb128 0x49
+	.uleb128 0x13
+	.byte	0
+	.byte	0
+	.uleb128 0x2
+	.uleb128 0xf
+	.byte	0
+	.uleb128 0xb
+	.uleb128 0x21
+	.sleb128 8
+	.uleb128 0x49
+	.uleb128 0x13
+	.byte	0
+	.byte	0
+	.uleb128 0x3
+	.uleb128 0xd
+	.byte	0
+	.uleb128 0x3
+	.uleb128 0xe
+	.uleb128 0x3a
+	.uleb128 0xb
+	.uleb128 0x3b
+	.uleb128 0xb
+	.uleb128 0x39
+	.uleb128 0xb
+	.uleb128 0x49
+	.uleb128 0x13
+	.uleb128 0x38
+	.uleb128 0xb
+	.byte	0
+	.byte	0
+	.uleb128 0x4
+	.uleb128 0x15
+	.byte	0x1
+	.uleb128 0x27
+	.uleb128 0x19
+	.uleb128 0x49
+	.uleb128 0x13
+	.uleb128 0x1
+	.uleb128 0x13
+	.byte	0
+	.byte	0
+	.uleb128 0x5
+	.uleb128 0xd
+	.byte	0
+	.uleb128 0x3
+	.uleb128 0xe
+	.uleb128 0x3a
+	.uleb128 0x21
+	.sleb128 17
+	.uleb128 0x3b
+	.uleb128 0x21
+	.sleb128 809
+	.uleb128 0x39
+	.uleb128 0x5
+	.uleb128 0x49
+	.uleb128 0x13
+	.uleb128 0x38
+	.uleb128 0xb
+	.byte	0
+	.byte	0
+	.uleb128 0x6
+	.uleb128 0xd
+	.byte	0
+	.uleb128 0x3
+	.uleb128 0x8
+	.uleb128 0x3a
+	.uleb128 0xb
+	.uleb128 0x3b
+	.uleb128 0xb
+	.uleb128 0x39
+	.uleb128 0xb
+	.uleb128 0x49
+	.uleb128 0x13
+	.uleb128 0x38
+	.uleb128 0xb
+	.byte	0
+	.byte	0
+	.uleb128 0x7
+	.uleb128 0x16
+	.byte	0
+	.uleb128 0x3
+	.uleb128 0xe
+	.uleb128 0x3a
+	.uleb128 0xb
+	.uleb128 0x3b
+	.uleb128 0xb
+	.uleb128 0x39
+	.uleb128 0xb
+	.uleb128 0x49
+	.uleb128 0x13
+	.byte	0
+	.byte	0
+	.uleb128 0x8
+	.uleb128 0x16
+	.byte	0
+	.uleb128 0x3
+	.uleb128 0xe
+	.uleb128 0x3a
+	.uleb128 0xb
+	.uleb128 0x3b
+	.uleb128 0x5
+	.uleb128 0x39
+	.uleb128 0xb
+	.uleb128 0x49
+	.uleb128 0x13
+	.byte	0
+	.byte	0
+	.uleb128 0x9
+	.uleb128 0xd
+	.byte	0
+	.uleb128 0x3
+	.uleb128 0xe
+	.uleb128 0x3a
+	.uleb128 0x21
+	.sleb128 17
+	.uleb128 0x3b
+	.uleb128 0x5
+	.uleb128 0x39
+	.uleb128 0xb
+	.uleb128 0x49
+	.uleb128 0x13
+	.uleb128 0x38
+	.uleb128 0xb
+	.byte	0
+	.byte	0
+	.uleb128 0xa
+	.uleb128 0x13
+	.byte	0x1
+	.uleb128 0x3
+	.uleb128 0xe
+	.uleb128 0xb
+	.uleb128 0xb
+	.uleb128 0x3a
+	.uleb128 0xb
+	.uleb128 0x3b
+	.uleb128 0xb
+	.uleb128 0x39
+	.uleb128 0xb
+	.uleb128 0x1
+	.uleb128 0x13
+	.byte	0
+	.byte	0
+	.uleb128 0xb
+	.uleb128 0xd
+	.byte	0
+	.uleb128 0x3
+	.uleb128 0xe
+	.uleb128 0x3a
+	.uleb128 0x21
+	.sleb128 11
+	.uleb128 0x3b
+	.uleb128 0xb
+	.uleb128 0x39
+	.uleb128 0xb
+	.uleb128 0x49
+	.uleb128 0x13
+	.byte	0
+	.byte	0
+	.uleb128 0xc
+	.uleb128 0x2e
+	.byte	0x1
+	.uleb128 0x3f
+	.uleb128 0x19
+	.uleb128 0x3
+	.uleb128 0xe
+	.uleb128 0x3a
+	.uleb128 0xb
+	.uleb128 0x3b
+	.uleb128 0xb
+	.uleb128 0x39
+	.uleb128 0xb
+	.uleb128 0x27
+	.uleb128 0x19
+	.uleb128 0x49
+	.uleb128 0x13
+	.uleb128 0x3c
+	.uleb128 0x19
+	.uleb128 0x1
+	.uleb128 0x13
+	.byte	0
+	.byte	0
+	.uleb128 0xd
+	.uleb128 0x24
+	.byte	0
+	.uleb128 0xb
+	.uleb128 0xb
+	.uleb128 0x3e
+	.uleb128 0xb
+	.uleb128 0x3
+	.uleb128 0xe
+	.byte	0
+	.byte	0
+	.uleb128 0xe
+	.uleb128 0xd
+	.byte	0
+	.uleb128 0x3
+	.uleb128 0x8
+	.uleb128 0x3a
+	.uleb128 0x21
+	.sleb128 17
+	.uleb128 0x3b
+	.uleb128 0x5
+	.uleb128 0x39
+	.uleb128 0xb
+	.uleb128 0x49
+	.uleb128 0x13
+	.uleb128 0x38
+	.uleb128 0xb
+	.byte	0
+	.byte	0
+	.uleb128 0xf
+	.uleb128 0x28
+	.byte	0
+	.uleb128 0x3
+	.uleb128 0xe
+	.uleb128 0x1c
+	.uleb128 0xb
+	.byte	0
+	.byte	0
+	.uleb128 0x10
+	.uleb128 0x13
+	.byte	0x1
+	.uleb128 0x3
+	.uleb128 0xe
+	.uleb128 0xb
+	.uleb128 0xb
+	.uleb128 0x3a
+	.uleb128 0x21
+	.sleb128 17
+	.uleb128 0x3b
+	.uleb128 0x5
+	.uleb128 0x39
+	.uleb128 0xb
+	.uleb128 0x1
+	.uleb128 0x13
+	.byte	0
+	.byte	0
+	.uleb128 0x11
+	.uleb128 0xd
+	.byte	0
+	.uleb128 0x3
+	.uleb128 0xe
+	.uleb128 0x3a
+	.uleb128 0x21
+	.sleb128 17
+	.uleb128 0x3b
+	.uleb128 0x21
+	.sleb128 809
+	.uleb128 0x39
+	.uleb128 0x5
+	.uleb128 0x49
+	.uleb128 0x13
+	.uleb128 0x38
+	.uleb128 0x5
+	.byte	0
+	.byte	0
+	.uleb128 0x12
+	.uleb128 0x15
+	.byte	0x1
+	.uleb128 0x27
+	.uleb128 0x19
+	.uleb128 0x1
+	.uleb128 0x13
+	.byte	0
+	.byte	0
+	.uleb128 0x13
+	.uleb128 0x18
+	.byte	0
+	.byte	0
+	.byte	0
+	.uleb128 0x14
+	.uleb128 0x1
+	.byte	0x1
+	.uleb128 0x49
+	.uleb128 0x13
+	.uleb128 0x1
+	.uleb128 0x13
+	.byte	0
+	.byte	0
+	.uleb128 0x15
+	.uleb128 0x21
+	.byte	0
+	.uleb128 0x49
+	.uleb128 0x13
+	.uleb128 0x2f
+	.uleb128 0xb
+	.byte	0
+	.byte	0
+	.uleb128 0x16
+	.uleb128 0xd
+	.byte	0
+	.uleb128 0x3
+	.uleb128 0xe
+	.uleb128 0x3a
+	.uleb128 0x21
+	.sleb128 3
+	.uleb128 0x3b
+	.uleb128 0x21
+	.sleb128 0
+	.uleb128 0x49
+	.uleb128 0x13
+	.uleb128 0x38
+	.uleb128 0xb
+	.byte	0
+	.byte	0
+	.uleb128 0x17
+	.uleb128 0x13
+	.byte	0
+	.uleb128 0x3
+	.uleb128 0xe
+	.uleb128 0x3c
+	.uleb128 0x19
+	.byte	0
+	.byte	0
+	.uleb128 0x18
+	.uleb128 0xd
+	.byte	0
+	.uleb128 0x3
+	.uleb128 0xe
+	.uleb128 0x3a
+	.uleb128 0x21
+	.sleb128 17
+	.uleb128 0x3b
+	.uleb128 0x5
+	.uleb128 0x39
+	.uleb128 0xb
+	.uleb128 0x49
+	.uleb128 0x13
+	.byte	0
+	.byte	0
+	.uleb128 0x19
+	.uleb128 0x2e
+	.byte	0
+	.uleb128 0x3f
+	.uleb128 0x19
+	.uleb128 0x3
+	.uleb128 0xe
+	.uleb128 0x3a
+	.uleb128 0xb
+	.uleb128 0x3b
+	.uleb128 0xb
+	.uleb128 0x39
+	.uleb128 0x21
+	.sleb128 13
+	.uleb128 0x27
+	.uleb128 0x19
+	.uleb128 0x3c
+	.uleb128 0x19
+	.byte	0
+	.byte	0
+	.uleb128 0x1a
+	.uleb128 0x26
+	.byte	0
+	.uleb128 0x49
+	.uleb128 0x13
+	.byte	0
+	.byte	0
+	.uleb128 0x1b
+	.uleb128 0xd
+	.byte	0
+	.uleb128 0x3
+	.uleb128 0x8
+	.uleb128 0x3a
+	.uleb128 0x21
+	.sleb128 9
+	.uleb128 0x3b
+	.uleb128 0xb
+	.uleb128 0x39
+	.uleb128 0xb
+	.uleb128 0x49
+	.uleb128 0x13
+	.byte	0
+	.byte	0
+	.uleb128 0x1c
+	.uleb128 0x4
+	.byte	0x1
+	.uleb128 0x3
+	.uleb128 0xe
+	.uleb128 0x3e
+	.uleb128 0x21
+	.sleb128 7
+	.uleb128 0xb
+	.uleb128 0x21
+	.sleb128 4
+	.uleb128 0x49
+	.uleb128 0x13
+	.uleb128 0x3a
+	.uleb128 0x21
+	.sleb128 17
+	.uleb128 0x3b
+	.uleb128 0x5
+	.uleb128 0x39
+	.uleb128 0x21
+	.sleb128 6
+	.uleb128 0x1
+	.uleb128 0x13
+	.byte	0
+	.byte	0
+	.uleb128 0x1d
+	.uleb128 0xd
+	.byte	0
+	.uleb128 0x3
+	.uleb128 0x8
+	.uleb128 0x3a
+	.uleb128 0x21
+	.sleb128 17
+	.uleb128 0x3b
+	.uleb128 0x21
+	.sleb128 809
+	.uleb128 0x39
+	.uleb128 0x5
+	.uleb128 0x49
+	.uleb128 0x13
+	.uleb128 0x38
+	.uleb128 0xb
+	.byte	0
+	.byte	0
+	.uleb128 0x1e
+	.uleb128 0x2e
+	.byte	0x1
+	.uleb128 0x3f
+	.uleb128 0x19
+	.uleb128 0x3
+	.uleb128 0xe
+	.uleb128 0x3a
+	.uleb128 0x21
+	.sleb128 19
+	.uleb128 0x3b
+	.uleb128 0xb
+	.uleb128 0x39
+	.uleb128 0x21
+	.sleb128 6
+	.uleb128 0x27
+	.uleb128 0x19
+	.uleb128 0x3c
+	.uleb128 0x19
+	.uleb128 0x1
+	.uleb128 0x13
+	.byte	0
+	.byte	0
+	.uleb128 0x1f
+	.uleb128 0x34
+	.byte	0
+	.uleb128 0x3
+	.uleb128 0xe
+	.uleb128 0x3a
+	.uleb128 0x21
+	.sleb128 1
+	.uleb128 0x3b
+	.uleb128 0xb
+	.uleb128 0x39
+	.uleb128 0xb
+	.uleb128 0x49
+	.uleb128 0x13
+	.uleb128 0x2
+	.uleb128 0x18
+	.byte	0
+	.byte	0
+	.uleb128 0x20
+	.uleb128 0x34
+	.byte	0
+	.uleb128 0x3
+	.uleb128 0x8
+	.uleb128 0x3a
+	.uleb128 0x21
+	.sleb128 1
+	.uleb128 0x3b
+	.uleb128 0xb
+	.uleb128 0x39
+	.uleb128 0xb
+	.uleb128 0x49
+	.uleb128 0x13
+	.uleb128 0x2
+	.uleb128 0x18
+	.byte	0
+	.byte	0
+	.uleb128 0x21
+	.uleb128 0x11
+	.byte	0x1
+	.uleb128 0x25
+	.uleb128 0xe
+	.uleb128 0x13
+	.uleb128 0xb
+	.uleb128 0x3
+	.uleb128 0x1f
+	.uleb128 0x1b
+	.uleb128 0x1f
+	.uleb128 0x11
+	.uleb128 0x1
+	.uleb128 0x12
+	.uleb128 0x7
+	.uleb128 0x10
+	.uleb128 0x17
+	.byte	0
+	.byte	0
+	.uleb128 0x22
+	.uleb128 0x24
+	.byte	0
+	.uleb128 0xb
+	.uleb128 0xb
+	.uleb128 0x3e
+	.uleb128 0xb
+	.uleb128 0x3
+	.uleb128 0x8
+	.byte	0
+	.byte	0
+	.uleb128 0x23
+	.uleb128 0xf
+	.byte	0
+	.uleb128 0xb
+	.uleb128 0xb
+	.byte	0
+	.byte	0
+	.uleb128 0x24
+	.uleb128 0x13
+	.byte	0x1
+	.uleb128 0x3
+	.uleb128 0xe
+	.uleb128 0xb
+	.uleb128 0xb
+	.uleb128 0x3a
+	.uleb128 0xb
+	.uleb128 0x3b
+	.uleb128 0xb
+	.uleb128 0x1
+	.uleb128 0x13
+	.byte	0
+	.byte	0
+	.uleb128 0x25
+	.uleb128 0x16
+	.byte	0
+	.uleb128 0x3
+	.uleb128 0xe
+	.uleb128 0x3a
+	.uleb128 0xb
+	.uleb128 0x3b
+	.uleb128 0xb
+	.uleb128 0x39
+	.uleb128 0xb
+	.byte	0
+	.byte	0
+	.uleb128 0x26
+	.uleb128 0x17
+	.byte	0x1
+	.uleb128 0xb
+	.uleb128 0xb
+	.uleb128 0x3a
+	.uleb128 0xb
+	.uleb128 0x3b
+	.uleb128 0xb
+	.uleb128 0x39
+	.uleb128 0xb
+	.uleb128 0x1
+	.uleb128 0x13
+	.byte	0
+	.byte	0
+	.uleb128 0x27
+	.uleb128 0x17
+	.byte	0x1
+	.uleb128 0x3
+	.uleb128 0xe
+	.uleb128 0xb
+	.uleb128 0xb
+	.uleb128 0x3a
+	.uleb128 0xb
+	.uleb128 0x3b
+	.uleb128 0xb
+	.uleb128 0x39
+	.uleb128 0xb
+	.uleb128 0x1
+	.uleb128 0x13
+	.byte	0
+	.byte	0
+	.uleb128 0x28
+	.uleb128 0x34
+	.byte	0
+	.uleb128 0x3
+	.uleb128 0xe
+	.uleb128 0x3a
+	.uleb128 0xb
+	.uleb128 0x3b
+	.uleb128 0xb
+	.uleb128 0x39
+	.uleb128 0xb
+	.uleb128 0x49
+	.uleb128 0x13
+	.uleb128 0x3f
+	.uleb128 0x19
+	.uleb128 0x3c
+	.uleb128 0x19
+	.byte	0
+	.byte	0
+	.uleb128 0x29
+	.uleb128 0x17
+	.byte	0x1
+	.uleb128 0x3
+	.uleb128 0x8
+	.uleb128 0xb
+	.uleb128 0xb
+	.uleb128 0x3a
+	.uleb128 0xb
+	.uleb128 0x3b
+	.uleb128 0x5
+	.uleb128 0x39
+	.uleb128 0xb
+	.uleb128 0x1
+	.uleb128 0x13
+	.byte	0
+	.byte	0
+	.uleb128 0x2a
+	.uleb128 0xd
+	.byte	0
+	.uleb128 0x3
+	.uleb128 0x8
+	.uleb128 0x3a
+	.uleb128 0xb
+	.uleb128 0x3b
+	.uleb128 0x5
+	.uleb128 0x39
+	.uleb128 0xb
+	.uleb128 0x49
+	.uleb128 0x13
+	.byte	0
+	.byte	0
+	.uleb128 0x2b
+	.uleb128 0x13
+	.byte	0x1
+	.uleb128 0x3
+	.uleb128 0xe
+	.uleb128 0xb
+	.uleb128 0x5
+	.uleb128 0x3a
+	.uleb128 0xb
+	.uleb128 0x3b
+	.uleb128 0x5
+	.uleb128 0x39
+	.uleb128 0xb
+	.uleb128 0x1
+	.uleb128 0x13
+	.byte	0
+	.byte	0
+	.uleb128 0x2c
+	.uleb128 0x34
+	.byte	0
+	.uleb128 0x3
+	.uleb128 0xe
+	.uleb128 0x3a
+	.uleb128 0xb
+	.uleb128 0x3b
+	.uleb128 0x5
+	.uleb128 0x39
+	.uleb128 0x5
+	.uleb128 0x49
+	.uleb128 0x13
+	.uleb128 0x3f
+	.uleb128 0x19
+	.uleb128 0x3c
+	.uleb128 0x19
+	.byte	0
+	.byte	0
+	.uleb128 0x2d
+	.uleb128 0x2e
+	.byte	0x1
+	.uleb128 0x3f
+	.uleb128 0x19
+	.uleb128 0x3
+	.uleb128 0xe
+	.uleb128 0x3a
+	.uleb128 0xb
+	.uleb128 0x3b
+	.uleb128 0x5
+	.uleb128 0x39
+	.uleb128 0xb
+	.uleb128 0x27
+	.uleb128 0x19
+	.uleb128 0x3c
+	.uleb128 0x19
+	.uleb128 0x1
+	.uleb128 0x13
+	.byte	0
+	.byte	0
+	.uleb128 0x2e
+	.uleb128 0x2e
+	.byte	0x1
+	.uleb128 0x3f
+	.uleb128 0x19
+	.uleb128 0x3
+	.uleb128 0xe
+	.uleb128 0x3a
+	.uleb128 0xb
+	.uleb128 0x3b
+	.uleb128 0xb
+	.uleb128 0x39
+	.uleb128 0xb
+	.uleb128 0x49
+	.uleb128 0x13
+	.uleb128 0x3c
+	.uleb128 0x19
+	.uleb128 0x1
+	.uleb128 0x13
+	.byte	0
+	.byte	0
+	.uleb128 0x2f
+	.uleb128 0x2e
+	.byte	0x1
+	.uleb128 0x3f
+	.uleb128 0x19
+	.uleb128 0x3
+	.uleb128 0xe
+	.uleb128 0x3a
+	.uleb128 0xb
+	.uleb128 0x3b
+	.uleb128 0x5
+	.uleb128 0x39
+	.uleb128 0xb
+	.uleb128 0x27
+	.uleb128 0x19
+	.uleb128 0x49
+	.uleb128 0x13
+	.uleb128 0x3c
+	.uleb128 0x19
+	.uleb128 0x1
+	.uleb128 0x13
+	.byte	0
+	.byte	0
+	.uleb128 0x30
+	.uleb128 0x2e
+	.byte	0
+	.uleb128 0x3f
+	.uleb128 0x19
+	.uleb128 0x3
+	.uleb128 0xe
+	.uleb128 0x3a
+	.uleb128 0xb
+	.uleb128 0x3b
+	.uleb128 0xb
+	.uleb128 0x39
+	.uleb128 0xb
+	.uleb128 0x27
+	.uleb128 0x19
+	.uleb128 0x49
+	.uleb128 0x13
+	.uleb128 0x3c
+	.uleb128 0x19
+	.byte	0
+	.byte	0
+	.uleb128 0x31
+	.uleb128 0x15
+	.byte	0
+	.uleb128 0x27
+	.uleb128 0x19
+	.byte	0
+	.byte	0
+	.uleb128 0x32
+	.uleb128 0x2e
+	.byte	0
+	.uleb128 0x3f
+	.uleb128 0x19
+	.uleb128 0x3
+	.uleb128 0xe
+	.uleb128 0x3a
+	.uleb128 0xb
+	.uleb128 0x3b
+	.uleb128 0x5
+	.uleb128 0x39
+	.uleb128 0xb
+	.uleb128 0x27
+	.uleb128 0x19
+	.uleb128 0x3c
+	.uleb128 0x19
+	.byte	0
+	.byte	0
+	.uleb128 0x33
+	.uleb128 0x2e
+	.byte	0x1
+	.uleb128 0x3f
+	.uleb128 0x19
+	.uleb128 0x3
+	.uleb128 0xe
+	.uleb128 0x3a
+	.uleb128 0xb
+	.uleb128 0x3b
+	.uleb128 0xb
+	.uleb128 0x39
+	.uleb128 0xb
+	.uleb128 0x3c
+	.uleb128 0x19
+	.uleb128 0x1
+	.uleb128 0x13
+	.byte	0
+	.byte	0
+	.uleb128 0x34
+	.uleb128 0x2e
+	.byte	0x1
+	.uleb128 0x3
+	.uleb128 0xe
+	.uleb128 0x3a
+	.uleb128 0xb
+	.uleb128 0x3b
+	.uleb128 0xb
+	.uleb128 0x39
+	.uleb128 0xb
+	.uleb128 0x11
+	.uleb128 0x1
+	.uleb128 0x12
+	.uleb128 0x7
+	.uleb128 0x40
+	.uleb128 0x18
+	.uleb128 0x7c
+	.uleb128 0x19
+	.uleb128 0x1
+	.uleb128 0x13
+	.byte	0
+	.byte	0
+	.uleb128 0x35
+	.uleb128 0x2e
+	.byte	0
+	.uleb128 0x3f
+	.uleb128 0x19
+	.uleb128 0x3
+	.uleb128 0xe
+	.uleb128 0x3a
+	.uleb128 0xb
+	.uleb128 0x3b
+	.uleb128 0xb
+	.uleb128 0x39
+	.uleb128 0xb
+	.uleb128 0x11
+	.uleb128 0x1
+	.uleb128 0x12
+	.uleb128 0x7
+	.uleb128 0x40
+	.uleb128 0x18
+	.uleb128 0x7c
+	.uleb128 0x19
+	.byte	0
+	.byte	0
+	.byte	0
+	.section	.debug_aranges,"",@progbits
+	.long	0x2c
+	.value	0x2
+	.long	.Ldebug_info0
+	.byte	0x8
+	.byte	0
+	.value	0
+	.value	0
+	.quad	.Ltext0
+	.quad	.Letext0-.Ltext0
+	.quad	0
+	.quad	0
+	.section	.debug_line,"",@progbits
+.Ldebug_line0:
+	.section	.debug_str,"MS",@progbits,1
+.LASF202:
+	.string	"JavaCode_listPointer"
+.LASF8:
+	.string	"long int"
+.LASF160:
+	.string	"JavaCodeListCons"
+.LASF205:
+	.string	"jcoTag"
+.LASF38:
+	.string	"_shortbuf"
+.LASF248:
+	.string	"_IO_lock_t"
+.LASF111:
+	.string	"TblKey"
+.LASF14:
+	.string	"gp_offset"
+.LASF127:
+	.string	"JCO_IMPORT"
+.LASF227:
+	.string	"jcTry"
+.LASF27:
+	.string	"_IO_buf_end"
+.LASF190:
+	.string	"NConcat"
+.LASF159:
+	.string	"isImported"
+.LASF62:
+	.string	"String"
+.LASF239:
+	.string	"showTest"
+.LASF206:
+	.string	"jcoAssoc"
+.LASF251:
+	.string	"testTry"
+.LASF67:
+	.string	"buffer"
+.LASF58:
+	.string	"Bool"
+.LASF132:
+	.string	"node"
+.LASF25:
+	.string	"_IO_write_end"
+.LASF4:
+	.string	"unsigned int"
+.LASF117:
+	.string	"next"
+.LASF162:
+	.string	"JavaCode_listOpsStruct"
+.LASF225:
+	.string	"bufLiberate"
+.LASF43:
+	.string	"_freeres_list"
+.LASF172:
+	.string	"FreeTo"
+.LASF19:
+	.string	"_flags"
+.LASF139:
+	.string	"sexpr"
+.LASF110:
+	.string	"symbol"
+.LASF136:
+	.string	"JavaCodeClass"
+.LASF112:
+	.string	"TblElt"
+.LASF53:
+	.string	"UByte"
+.LASF56:
+	.string	"UAInt"
+.LASF64:
+	.string	"DFloat"
+.LASF204:
+	.string	"JSExprFn"
+.LASF141:
+	.string	"prec"
+.LASF115:
+	.string	"TblSlot"
+.LASF196:
+	.string	"NRemove"
+.LASF98:
+	.string	"eqFun"
+.LASF138:
+	.string	"writer"
+.LASF238:
+	.string	"ostreamNewFrBuffer"
+.LASF73:
+	.string	"OstWriteCharFn"
+.LASF224:
+	.string	"jcoWrite"
+.LASF151:
+	.string	"clss"
+.LASF176:
+	.string	"Drop"
+.LASF233:
+	.string	"strCopy"
+.LASF198:
+	.string	"Print"
+.LASF30:
+	.string	"_IO_save_end"
+.LASF108:
+	.string	"placev"
+.LASF57:
+	.string	"UNotAsLong"
+.LASF84:
+	.string	"sxNil"
+.LASF83:
+	.string	"sxHdr"
+.LASF100:
+	.string	"count"
+.LASF59:
+	.string	"Hash"
+.LASF16:
+	.string	"overflow_arg_area"
+.LASF228:
+	.string	"jcAssign"
+.LASF128:
+	.string	"JCO_LIMIT"
+.LASF184:
+	.string	"CopyDeeply"
+.LASF81:
+	.string	"SrcPos"
+.LASF77:
+	.string	"writeCharFn"
+.LASF155:
+	.string	"jcoToken"
+.LASF231:
+	.string	"jcLocalDecl"
+.LASF240:
+	.string	"dbFini"
+.LASF40:
+	.string	"_offset"
+.LASF218:
+	.string	"nameSymbol"
+.LASF149:
+	.string	"closeStream"
+.LASF146:
+	.string	"cpos"
+.LASF76:
+	.string	"ostreamOps"
+.LASF33:
+	.string	"_fileno"
+.LASF207:
+	.string	"JCO_LR"
+.LASF135:
+	.string	"import"
+.LASF123:
+	.string	"JCO_UNIT"
+.LASF45:
+	.string	"__pad5"
+.LASF65:
+	.string	"MostAlignedType"
+.LASF75:
+	.string	"OstCloseFn"
+.LASF85:
+	.string	"sxSymbol"
+.LASF93:
+	.string	"sxCons"
+.LASF87:
+	.string	"sxInteger"
+.LASF191:
+	.string	"Memq"
+.LASF60:
+	.string	"Length"
+.LASF90:
+	.string	"sxComplex"
+.LASF18:
+	.string	"size_t"
+.LASF37:
+	.string	"_vtable_offset"
+.LASF31:
+	.string	"_markers"
+.LASF177:
+	.string	"LastCons"
+.LASF187:
+	.string	"Reverse"
+.LASF22:
+	.string	"_IO_read_base"
+.LASF236:
+	.string	"jcReturnVoid"
+.LASF243:
+	.string	"osInit"
+.LASF105:
+	.string	"isNeg"
+.LASF158:
+	.string	"path"
+.LASF244:
+	.string	"code"
+.LASF164:
+	.string	"Singleton"
+.LASF199:
+	.string	"GPrint"
+.LASF5:
+	.string	"long unsigned int"
+.LASF170:
+	.string	"FreeCons"
+.LASF144:
+	.string	"jcoPContext"
+.LASF166:
+	.string	"Listv"
+.LASF217:
+	.string	"wrInfo"
+.LASF241:
+	.string	"sxiInit"
+.LASF211:
+	.string	"BIntS"
+.LASF195:
+	.string	"Position"
+.LASF194:
+	.string	"Posq"
+.LASF11:
+	.string	"char"
+.LASF46:
+	.string	"_mode"
+.LASF63:
+	.string	"CString"
+.LASF192:
+	.string	"Member"
+.LASF131:
+	.string	"SExprUnion"
+.LASF49:
+	.string	"_IO_marker"
+.LASF167:
+	.string	"ListNull"
+.LASF96:
+	.string	"table"
+.LASF173:
+	.string	"FreeDeeply"
+.LASF72:
+	.string	"data"
+.LASF130:
+	.string	"JavaCode"
+.LASF219:
+	.string	"symbolTable"
+.LASF150:
+	.string	"jcoHdr"
+.LASF250:
+	.string	"fmttsInit"
+.LASF94:
+	.string	"sxVector"
+.LASF210:
+	.string	"JcoAssoc"
+.LASF23:
+	.string	"_IO_write_base"
+.LASF142:
+	.string	"assoc"
+.LASF152:
+	.string	"jcoNode"
+.LASF79:
+	.string	"closeFn"
+.LASF52:
+	.string	"long long int"
+.LASF226:
+	.string	"afprintf"
+.LASF28:
+	.string	"_IO_save_base"
+.LASF213:
+	.string	"wrWidth"
+.LASF181:
+	.string	"IsLonger"
+.LASF86:
+	.string	"sxPackage"
+.LASF74:
+	.string	"OstWriteStringFn"
+.LASF80:
+	.string	"OStreamOps"
+.LASF55:
+	.string	"ULong"
+.LASF215:
+	.string	"sxCdrField"
+.LASF234:
+	.string	"jcBlock"
+.LASF26:
+	.string	"_IO_buf_base"
+.LASF249:
+	.string	"bufNew"
+.LASF44:
+	.string	"_freeres_buf"
+.LASF156:
+	.string	"jcoLiteral"
+.LASF29:
+	.string	"_IO_backup_base"
+.LASF235:
+	.string	"jcStatement"
+.LASF99:
+	.string	"info"
+.LASF189:
+	.string	"Concat"
+.LASF163:
+	.string	"Cons"
+.LASF68:
+	.string	"OStreamPutFun"
+.LASF186:
+	.string	"NMap"
+.LASF183:
+	.string	"CopyTo"
+.LASF153:
+	.string	"argc"
+.LASF223:
+	.string	"testStringEqual"
+.LASF54:
+	.string	"UShort"
+.LASF137:
+	.string	"jclss"
+.LASF154:
+	.string	"argv"
+.LASF106:
+	.string	"placea"
+.LASF107:
+	.string	"placec"
+.LASF188:
+	.string	"NReverse"
+.LASF88:
+	.string	"sxRatio"
+.LASF133:
+	.string	"token"
+.LASF129:
+	.string	"JcoTag"
+.LASF124:
+	.string	"JCO_JAVA"
+.LASF212:
+	.string	"isShared"
+.LASF78:
+	.string	"writeStringFn"
+.LASF92:
+	.string	"sxString"
+.LASF220:
+	.string	"marker"
+.LASF69:
+	.string	"OStream"
+.LASF97:
+	.string	"hashFun"
+.LASF89:
+	.string	"sxFloat"
+.LASF169:
+	.string	"Find"
+.LASF200:
+	.string	"Format"
+.LASF21:
+	.string	"_IO_read_end"
+.LASF193:
+	.string	"ContainsAllq"
+.LASF125:
+	.string	"JCO_LIT"
+.LASF242:
+	.string	"dbInit"
+.LASF7:
+	.string	"short int"
+.LASF91:
+	.string	"sxChar"
+.LASF245:
+	.string	"ctxt"
+.LASF101:
+	.string	"buckc"
+.LASF208:
+	.string	"JCO_RL"
+.LASF229:
+	.string	"jcApplyMethodV"
+.LASF116:
+	.string	"hash"
+.LASF95:
+	.string	"Table"
+.LASF102:
+	.string	"buckv"
+.LASF51:
+	.string	"_IO_wide_data"
+.LASF109:
+	.string	"Symbol"
+.LASF182:
+	.string	"Copy"
+.LASF165:
+	.string	"List"
+.LASF247:
+	.string	"__va_list_tag"
+.LASF15:
+	.string	"fp_offset"
+.LASF157:
+	.string	"jcoImport"
+.LASF114:
+	.string	"TblEqFun"
+.LASF140:
+	.string	"name"
+.LASF134:
+	.string	"literal"
+.LASF221:
+	.string	"real"
+.LASF201:
+	.string	"dbOut"
+.LASF252:
+	.string	"jcodeTest"
+.LASF42:
+	.string	"_wide_data"
+.LASF178:
+	.string	"_Length"
+.LASF39:
+	.string	"_lock"
+.LASF175:
+	.string	"FreeIfSat"
+.LASF50:
+	.string	"_IO_codecvt"
+.LASF35:
+	.string	"_old_offset"
+.LASF70:
+	.string	"_IO_FILE"
+.LASF12:
+	.string	"float"
+.LASF17:
+	.string	"reg_save_area"
+.LASF145:
+	.string	"indent"
+.LASF180:
+	.string	"IsShorter"
+.LASF104:
+	.string	"bint"
+.LASF230:
+	.string	"jcCatch"
+.LASF237:
+	.string	"jcoPContextNew"
+.LASF2:
+	.string	"unsigned char"
+.LASF216:
+	.string	"homePkg"
+.LASF214:
+	.string	"sxCarField"
+.LASF147:
+	.string	"line"
+.LASF185:
+	.string	"CopyDeeplyTo"
+.LASF222:
+	.string	"imag"
+.LASF24:
+	.string	"_IO_write_ptr"
+.LASF119:
+	.string	"first"
+.LASF126:
+	.string	"JCO_TOKEN"
+.LASF71:
+	.string	"ostream"
+.LASF246:
+	.string	"GNU C99 12.2.0 -mtune=generic -march=x86-64 -g -O0 -std=c99 -fasynchronous-unwind-tables"
+.LASF232:
+	.string	"jcId"
+.LASF143:
+	.string	"JavaCodePContext"
+.LASF41:
+	.string	"_codecvt"
+.LASF61:
+	.string	"Pointer"
+.LASF66:
+	.string	"Buffer"
+.LASF197:
+	.string	"FillVector"
+.LASF82:
+	.string	"SExpr"
+.LASF171:
+	.string	"Free"
+.LASF9:
+	.string	"__off_t"
+.LASF6:
+	.string	"signed char"
+.LASF203:
+	.string	"JWriteFn"
+.LASF3:
+	.string	"short unsigned int"
+.LASF118:
+	.string	"StringListCons"
+.LASF161:
+	.string	"JavaCodeList"
+.LASF103:
+	.string	"BInt"
+.LASF20:
+	.string	"_IO_read_ptr"
+.LASF113:
+	.string	"TblHashFun"
+.LASF13:
+	.string	"double"
+.LASF120:
+	.string	"rest"
+.LASF32:
+	.string	"_chain"
+.LASF174:
+	.string	"FreeDeeplyTo"
+.LASF48:
+	.string	"FILE"
+.LASF34:
+	.string	"_flags2"
+.LASF179:
+	.string	"IsLength"
+.LASF209:
+	.string	"JCO_NONE"
+.LASF36:
+	.string	"_cur_column"
+.LASF168:
+	.string	"Equal"
+.LASF122:
+	.string	"JCO_START"
+.LASF121:
+	.string	"StringList"
+.LASF10:
+	.string	"__off64_t"
+.LASF47:
+	.string	"_unused2"
+.LASF148:
+	.string	"stream"
+	.section	.debug_line_str,"MS",@progbits,1
+.LASF1:
+	.string	"/repo/aldor/aldor/src"
+.LASF0:
+	.string	"test/test_jcode.c"
+	.ident	"GCC: (Debian 12.2.0-14+deb12u1) 12.2.0"
+	.section	.note.GNU-stack,"",@progbits
